@@ -16,68 +16,12 @@ Local Notation length := List.length (only parsing).
 (* ================================================================== *)
 (* Part 1 — basics                                                     *)
 
+Local Open Scope Z_scope.
+
 Definition ids (l : oplog) : list Z := map eid l.
 
 Lemma ids_app : forall a b, ids (a ++ b) = ids a ++ ids b.
 Proof. intros; unfold ids; apply map_app. Qed.
-
-Lemma find_after_none : forall id l, ~ In id (ids l) -> find_after id l = None.
-Proof.
-  induction l as [|e t IH]; simpl; intros H; [reflexivity|].
-  destruct (Z.eqb_spec (eid e) id) as [E|E].
-  - exfalso; apply H; left; exact E.
-  - apply IH; intros C; apply H; right; exact C.
-Qed.
-
-Lemma find_after_app : forall id a e b,
-  ~ In id (ids a) -> eid e = id -> find_after id (a ++ e :: b) = Some b.
-Proof.
-  induction a as [|x t IH]; simpl; intros e b H E.
-  - rewrite E, Z.eqb_refl; reflexivity.
-  - destruct (Z.eqb_spec (eid x) id) as [E'|E'].
-    + exfalso; apply H; left; exact E'.
-    + apply IH; [intros C; apply H; right; exact C|exact E].
-Qed.
-
-Lemma find_event_app : forall id a e b,
-  ~ In id (ids a) -> eid e = id -> find_event id (a ++ e :: b) = Some e.
-Proof.
-  induction a as [|x t IH]; simpl; intros e b H E.
-  - rewrite E, Z.eqb_refl; reflexivity.
-  - destruct (Z.eqb_spec (eid x) id) as [E'|E'].
-    + exfalso; apply H; left; exact E'.
-    + apply IH; [intros C; apply H; right; exact C|exact E].
-Qed.
-
-Lemma find_event_none : forall id l, ~ In id (ids l) -> find_event id l = None.
-Proof.
-  induction l as [|e t IH]; simpl; intros H; [reflexivity|].
-  destruct (Z.eqb_spec (eid e) id) as [E|E].
-  - exfalso; apply H; left; exact E.
-  - apply IH; intros C; apply H; right; exact C.
-Qed.
-
-Lemma NoDup_app_l : forall (A : Type) (a b : list A), NoDup (a ++ b) -> NoDup a.
-Proof.
-  induction a as [|x t IH]; simpl; intros b H; [constructor|].
-  inversion H as [|? ? Hn Hd]; subst. constructor.
-  - intros C; apply Hn; apply in_or_app; left; exact C.
-  - eapply IH; exact Hd.
-Qed.
-
-Lemma NoDup_app_r : forall (A : Type) (a b : list A), NoDup (a ++ b) -> NoDup b.
-Proof.
-  induction a as [|x t IH]; simpl; intros b H; [exact H|].
-  inversion H; subst; eapply IH; eassumption.
-Qed.
-
-Lemma NoDup_app_disj : forall (A : Type) (a b : list A) x, NoDup (a ++ b) -> In x a -> ~ In x b.
-Proof.
-  induction a as [|y t IH]; simpl; intros b x H Hin; [contradiction|].
-  inversion H as [|? ? Hn Hd]; subst. destruct Hin as [->|Hin].
-  - intros C; apply Hn; apply in_or_app; right; exact C.
-  - eapply IH; eassumption.
-Qed.
 
 Lemma in_skipn : forall (A : Type) n (l : list A) x, In x (skipn n l) -> In x l.
 Proof.
@@ -85,8 +29,142 @@ Proof.
   destruct l as [|y t]; [exact H|]. right; apply IH; exact H.
 Qed.
 
-(* ---- scope ---- *)
+Lemma in_firstn : forall (A : Type) n (l : list A) x, In x (firstn n l) -> In x l.
+Proof.
+  induction n as [|n IH]; intros l x H; [contradiction|].
+  destruct l as [|y t]; [exact H|]. destruct H as [H|H]; [left; exact H|right; apply IH; exact H].
+Qed.
 
+(* ---- histories: ids strictly increasing (C08), above the zero timestamp ---- *)
+
+(* every id of l is above lo and the ids increase strictly *)
+Fixpoint increasing (lo : Z) (l : oplog) : Prop :=
+  match l with
+  | [] => True
+  | e :: t => lo < eid e /\ increasing (eid e) t
+  end.
+
+(* id of the last event of a, lo when a is empty: Catalog.Trimmed after
+   retention has removed a from a catalog whose Trimmed was lo *)
+Definition last_id (lo : Z) (a : oplog) : Z :=
+  match last_event a with Some e => eid e | None => lo end.
+
+Lemma last_id_cons : forall lo e t, last_id lo (e :: t) = last_id (eid e) t.
+Proof. intros lo e [|x t]; unfold last_id; [reflexivity|]. change (last_event (e :: x :: t)) with (last_event (x :: t)). destruct (last_event (x :: t)) eqn:E; [reflexivity|]. exfalso. clear -E. revert x E. induction t as [|y t IH]; intros x E; [discriminate|]. apply (IH y). exact E. Qed.
+
+Lemma last_id_app : forall a lo b, last_id lo (a ++ b) = last_id (last_id lo a) b.
+Proof.
+  induction a as [|e t IH]; intros lo b; [reflexivity|].
+  rewrite <- app_comm_cons, !last_id_cons. apply IH.
+Qed.
+
+Lemma increasing_weaken : forall l lo lo', lo' <= lo -> increasing lo l -> increasing lo' l.
+Proof. intros [|e t] lo lo' H; simpl; [auto|]. intros [H1 H2]; split; [lia|exact H2]. Qed.
+
+Lemma increasing_app : forall a lo b,
+  increasing lo (a ++ b) <-> increasing lo a /\ increasing (last_id lo a) b.
+Proof.
+  induction a as [|e t IH]; intros lo b; simpl.
+  - unfold last_id; simpl. tauto.
+  - rewrite last_id_cons, IH. tauto.
+Qed.
+
+Lemma increasing_last_id : forall a lo, increasing lo a -> lo <= last_id lo a.
+Proof.
+  induction a as [|e t IH]; intros lo H; [unfold last_id; simpl; lia|].
+  rewrite last_id_cons. destruct H as [H1 H2]. specialize (IH _ H2). lia.
+Qed.
+
+Lemma increasing_gt : forall l lo x, increasing lo l -> In x l -> lo < eid x.
+Proof.
+  induction l as [|e t IH]; intros lo x H Hin; [contradiction|].
+  destruct H as [H1 H2]. destruct Hin as [->|Hin]; [exact H1|].
+  specialize (IH _ _ H2 Hin). lia.
+Qed.
+
+Lemma increasing_le_last : forall a lo x, increasing lo a -> In x a -> eid x <= last_id lo a.
+Proof.
+  induction a as [|e t IH]; intros lo x H Hin; [contradiction|].
+  rewrite last_id_cons. destruct H as [H1 H2]. destruct Hin as [->|Hin].
+  - apply increasing_last_id; exact H2.
+  - apply IH; assumption.
+Qed.
+
+Lemma increasing_NoDup : forall l lo, increasing lo l -> NoDup (ids l).
+Proof.
+  induction l as [|e t IH]; intros lo H; simpl; [constructor|].
+  destruct H as [H1 H2]. constructor; [|eapply IH; exact H2].
+  intros C. unfold ids in C. apply in_map_iff in C. destruct C as (x & Hx & Hin).
+  pose proof (increasing_gt _ _ _ H2 Hin). lia.
+Qed.
+
+(* ---- `after`: the events ahead of a position ---- *)
+
+Lemma after_app_le : forall a last b, (forall x, In x a -> eid x <= last) -> after last (a ++ b) = after last b.
+Proof.
+  induction a as [|e t IH]; intros last b H; [reflexivity|].
+  simpl. destruct (Z.leb_spec (eid e) last) as [L|L].
+  - apply IH. intros x Hx; apply H; right; exact Hx.
+  - specialize (H e (or_introl eq_refl)). lia.
+Qed.
+
+Lemma after_gt : forall last b, increasing last b -> after last b = b.
+Proof.
+  intros last [|e t]; simpl; [reflexivity|]. intros [H _].
+  destruct (Z.leb_spec (eid e) last); [lia|reflexivity].
+Qed.
+
+Lemma after_length : forall last l, (length (after last l) <= length l)%nat.
+Proof.
+  induction l as [|e t IH]; simpl; [lia|]. destruct (Z.leb (eid e) last); simpl; lia.
+Qed.
+
+Lemma filter_all_above : forall t m z, increasing m t -> z <= m -> filter (fun e => Z.ltb z (eid e)) t = t.
+Proof.
+  induction t as [|x t IH]; intros m z H L; [reflexivity|].
+  destruct H as [G1 G2]. simpl. destruct (Z.ltb_spec z (eid x)); [|lia].
+  f_equal. apply (IH (eid x)); [exact G2|lia].
+Qed.
+
+(* in a history, `after z` = the events with id above z *)
+Lemma after_filter : forall l lo z, increasing lo l -> after z l = filter (fun e => Z.ltb z (eid e)) l.
+Proof.
+  induction l as [|e t IH]; intros lo z H; [reflexivity|].
+  destruct H as [H1 H2]. simpl. destruct (Z.leb_spec (eid e) z) as [L|L].
+  - destruct (Z.ltb_spec z (eid e)); [lia|]. eapply IH; exact H2.
+  - destruct (Z.ltb_spec z (eid e)); [|lia]. f_equal.
+    symmetry. apply (filter_all_above t (eid e)); [exact H2|lia].
+Qed.
+
+(* split of a history at a position: what is behind (ids <= z) and ahead *)
+Fixpoint before (z : Z) (l : oplog) : oplog :=
+  match l with
+  | [] => []
+  | e :: t => if Z.leb (eid e) z then e :: before z t else []
+  end.
+
+Lemma before_after : forall z l, l = before z l ++ after z l.
+Proof.
+  induction l as [|e t IH]; [reflexivity|]. simpl.
+  destruct (Z.leb (eid e) z); [simpl; f_equal; exact IH|reflexivity].
+Qed.
+
+Lemma before_le : forall z l x, In x (before z l) -> eid x <= z.
+Proof.
+  induction l as [|e t IH]; intros x H; [contradiction|]. simpl in H.
+  destruct (Z.leb_spec (eid e) z); [|contradiction].
+  destruct H as [<-|H]; [assumption|apply IH; exact H].
+Qed.
+
+Lemma after_increasing : forall l lo z, increasing lo l -> increasing z (after z l).
+Proof.
+  induction l as [|e t IH]; intros lo z H; [exact Logic.I|].
+  destruct H as [H1 H2]. simpl. destruct (Z.leb_spec (eid e) z) as [L|L].
+  - eapply IH; exact H2.
+  - split; [exact L|exact H2].
+Qed.
+
+(* ---- scope ---- *)
 (* what `drops` means for the three kinds of handles *)
 Lemma drops_client : forall c e, drops ("", c)%string e = false.
 Proof. intros; unfold drops; simpl; reflexivity. Qed.
@@ -132,91 +210,78 @@ Proof. intros; reflexivity. Qed.
 
 Definition live (s : sstate) : Prop := serror s = None /\ sclosed s = false.
 
-Lemma next_iter_handle : forall b c s log, sh (fst (next_iter b c s log)) = sh s.
+Lemma next_iter_handle : forall b c s log tr, sh (fst (next_iter b c s log tr)) = sh s.
 Proof.
-  intros b c s log; unfold next_iter.
+  intros b c s log tr; unfold next_iter.
   destruct (is_some (serror s) || sclosed s); [reflexivity|].
   destruct (sdropped s); [reflexivity|].
-  destruct (pending s log) as [[|e t]|]; simpl.
+  destruct (Z.ltb (slast s) tr); [reflexivity|].
+  destruct (pending s log) as [|e t]; simpl.
   - destruct b; [reflexivity|]. destruct c; reflexivity.
   - destruct (in_scope (sh s) e); reflexivity.
-  - reflexivity.
 Qed.
 
-Lemma find_after_split : forall id l r, find_after id l = Some r ->
-  exists a x, l = a ++ x :: r /\ eid x = id /\ ~ In id (ids a).
+Lemma after_head : forall last l e t, after last l = e :: t -> last < eid e.
 Proof.
-  induction l as [|e t IH]; simpl; intros r H; [discriminate|].
-  destruct (Z.eqb_spec (eid e) id) as [E|E].
-  - inversion H; subst. exists [], e. simpl; auto.
-  - destruct (IH _ H) as (a & x & -> & Hx & Hn).
-    exists (e :: a), x. simpl; repeat split; auto.
-    intros [C|C]; [apply E; exact C|apply Hn; exact C].
+  induction l as [|x r IH]; simpl; intros e t H; [discriminate|].
+  destruct (Z.leb_spec (eid x) last); [eapply IH; exact H|]. inversion H; subst; assumption.
 Qed.
 
-(* one `continue` consumes exactly one pending event (ids are unique) *)
-Lemma next_iter_continue : forall b c s log s',
-  NoDup (ids log) ->
-  next_iter b c s log = (s', Continue) ->
-  exists e t, pending s log = Some (e :: t) /\ pending s' log = Some t.
+Lemma after_step : forall last l e t, after last l = e :: t -> after (eid e) l = after (eid e) t.
 Proof.
-  intros b c s log s' ND; unfold next_iter.
+  intros last l e t H. pose proof (after_head _ _ _ _ H) as Hlt.
+  rewrite (before_after last l) at 1. rewrite after_app_le.
+  - rewrite H. simpl. destruct (Z.leb_spec (eid e) (eid e)); [reflexivity|lia].
+  - intros x Hx. apply before_le in Hx. lia.
+Qed.
+
+(* one `continue` passes exactly one pending event *)
+Lemma next_iter_continue : forall b c s log tr s',
+  next_iter b c s log tr = (s', Continue) ->
+  exists e t, pending s log = e :: t /\ pending s' log = after (eid e) t.
+Proof.
+  intros b c s log tr s'; unfold next_iter.
   destruct (is_some (serror s) || sclosed s); [discriminate|].
   destruct (sdropped s); [discriminate|].
-  destruct (pending s log) as [[|e t]|] eqn:P.
+  destruct (Z.ltb (slast s) tr); [discriminate|].
+  destruct (pending s log) as [|e t] eqn:P.
   - destruct b; [discriminate|]. destruct c; discriminate.
   - destruct (in_scope (sh s) e); [discriminate|]. intros H; inversion H; subst; clear H.
-    exists e, t; split; [reflexivity|]. unfold pending in *; simpl.
-    destruct (slast s) as [id|].
-    + destruct (find_after_split _ _ _ P) as (a & x & -> & Hx & Hn).
-      replace (a ++ x :: e :: t) with ((a ++ [x]) ++ e :: t) by (rewrite <- app_assoc; reflexivity).
-      apply find_after_app; [|reflexivity].
-      replace (a ++ x :: e :: t) with ((a ++ [x]) ++ e :: t) in ND by (rewrite <- app_assoc; reflexivity).
-      rewrite ids_app in ND. simpl in ND.
-      intros C. eapply (NoDup_app_disj _ _ _ _ ND C). left; reflexivity.
-    + inversion P; subst. simpl. rewrite Z.eqb_refl. reflexivity.
-  - discriminate.
+    exists e, t; split; [reflexivity|]. unfold pending in *; simpl. eapply after_step; exact P.
 Qed.
 
-Lemma next_iter_nonblocking : forall c s log s', next_iter false c s log <> (s', Park).
+Lemma next_iter_nonblocking : forall c s log tr s', next_iter false c s log tr <> (s', Park).
 Proof.
-  intros c s log s'; unfold next_iter.
+  intros c s log tr s'; unfold next_iter.
   destruct (is_some (serror s) || sclosed s); [discriminate|].
   destruct (sdropped s); [discriminate|].
-  destruct (pending s log) as [[|e t]|]; cbn; try discriminate.
+  destruct (Z.ltb (slast s) tr); [discriminate|].
+  destruct (pending s log) as [|e t]; cbn; try discriminate.
   destruct (in_scope (sh s) e); discriminate.
 Qed.
 
-Lemma next_fuel_enough : forall log, NoDup (ids log) -> forall fuel c s,
-  (forall p, pending s log = Some p -> length p < fuel) -> 0 < fuel ->
-  exists o, snd (next_fuel fuel c s log) = Ok o.
+Lemma next_fuel_enough : forall log tr fuel c s,
+  (length (pending s log) < fuel)%nat ->
+  exists o, snd (next_fuel fuel c s log tr) = Ok o.
 Proof.
-  intros log ND; induction fuel as [|f IH]; intros c s Hp Hf; [lia|].
-  simpl. destruct (next_iter false c s log) as [s' [o| |]] eqn:N.
+  intros log tr; induction fuel as [|f IH]; intros c s Hp; [lia|].
+  simpl. destruct (next_iter false c s log tr) as [s' [o| |]] eqn:N.
   - exists o; reflexivity.
-  - destruct (next_iter_continue _ _ _ _ _ ND N) as (e & t & P & P').
-    specialize (Hp _ P). simpl in Hp.
-    apply IH; [|lia]. intros p Hp'. rewrite P' in Hp'. inversion Hp'; subst. lia.
+  - destruct (next_iter_continue _ _ _ _ _ _ N) as (e & t & P & P').
+    apply IH. rewrite P'. rewrite P in Hp. simpl in Hp.
+    pose proof (after_length (eid e) t). lia.
   - exfalso; eapply next_iter_nonblocking; exact N.
 Qed.
 
-Lemma find_after_length : forall id l r, find_after id l = Some r -> length r < length l.
-Proof.
-  induction l as [|e t IH]; simpl; intros r H; [discriminate|].
-  destruct (Z.eqb (eid e) id); [inversion H; subst; lia|]. specialize (IH _ H); lia.
-Qed.
-
 (* TryNext always returns: the fuel of `next` suffices *)
-Theorem next_total : forall s log, NoDup (ids log) ->
-  exists o, snd (next s log) = Ok o /\ exists o', snd (next_cancelled s log) = Ok o'.
+Theorem next_total : forall s log tr,
+  exists o, snd (next s log tr) = Ok o /\ exists o', snd (next_cancelled s log tr) = Ok o'.
 Proof.
-  intros s log ND.
-  assert (H : forall p, pending s log = Some p -> length p < S (length log)).
-  { intros p; unfold pending. destruct (slast s).
-    - intros F; apply find_after_length in F; lia.
-    - intros F; inversion F; subst; lia. }
-  destruct (next_fuel_enough log ND (S (length log)) false s H) as [o Ho]; [lia|].
-  destruct (next_fuel_enough log ND (S (length log)) true s H) as [o' Ho']; [lia|].
+  intros s log tr.
+  assert (H : (length (pending s log) < S (length log))%nat).
+  { unfold pending. pose proof (after_length (slast s) log). lia. }
+  destruct (next_fuel_enough log tr (S (length log)) false s H) as [o Ho].
+  destruct (next_fuel_enough log tr (S (length log)) true s H) as [o' Ho'].
   exists o; split; [exact Ho|exists o'; exact Ho'].
 Qed.
 
@@ -309,6 +374,14 @@ Proof.
   destruct (drops h e); [discriminate|]. rewrite IH; auto.
 Qed.
 
+Lemma last_event_in' : forall l e, last_event l = Some e -> In e l.
+Proof.
+  induction l as [|x t IH]; simpl; intros e H; [discriminate|].
+  destruct t as [|y t']; [inversion H; auto|]. right; apply IH; exact H.
+Qed.
+
+(* ---- worlds, steps, scripts ---- *)
+
 (* ---- worlds, steps, scripts ---- *)
 
 Inductive sstep : Type :=
@@ -320,29 +393,27 @@ Inductive sstep : Type :=
 Record world : Type := mkWorld {
   w_hist : list event;     (* ghost: every event ever committed, in commit order *)
   w_ntrim : nat;           (* how many of them retention has removed: oplog = skipn w_ntrim w_hist *)
+  w_trimmed : Z;           (* Catalog.Trimmed *)
   w_st : sstate;
   w_deliv : list event;    (* ghost: the events returned so far, in order *)
-  w_outs : list iter;      (* ghost: the result of every pass so far *)
-  w_jumped : bool          (* ghost: some trim removed events while the stream held no reference event (s.last = nil) *)
+  w_outs : list iter       (* ghost: the result of every pass so far *)
 }.
 
 Definition w_log (w : world) : oplog := skipn (w_ntrim w) (w_hist w).
 
-Definition is_none {A : Type} (o : option A) : bool := match o with None => true | Some _ => false end.
-
 Definition exec_step (w : world) (s : sstep) : world :=
   match s with
-  | SCommit evs => mkWorld (w_hist w ++ evs) (w_ntrim w) (w_st w) (w_deliv w) (w_outs w) (w_jumped w)
+  | SCommit evs => mkWorld (w_hist w ++ evs) (w_ntrim w) (w_trimmed w) (w_st w) (w_deliv w) (w_outs w)
   | STrim k =>
-      let n' := Nat.min (w_ntrim w + k) (length (w_hist w)) in
-      mkWorld (w_hist w) n' (w_st w) (w_deliv w) (w_outs w)
-              (w_jumped w || (is_none (slast (w_st w)) && (w_ntrim w <? n')))
+      (* Transaction.Clean: remove the prefix, record the id of the newest removed event *)
+      mkWorld (w_hist w) (Nat.min (w_ntrim w + k) (length (w_hist w)))
+              (trimmed_after k (w_log w) (w_trimmed w)) (w_st w) (w_deliv w) (w_outs w)
   | SIter b c =>
-      let r := next_iter b c (w_st w) (w_log w) in
-      mkWorld (w_hist w) (w_ntrim w) (fst r)
+      let r := next_iter b c (w_st w) (w_log w) (w_trimmed w) in
+      mkWorld (w_hist w) (w_ntrim w) (w_trimmed w) (fst r)
               (match snd r with Return (Event e) => w_deliv w ++ [e] | _ => w_deliv w end)
-              (w_outs w ++ [snd r]) (w_jumped w)
-  | SClose => mkWorld (w_hist w) (w_ntrim w) (close_stream (w_st w)) (w_deliv w) (w_outs w) (w_jumped w)
+              (w_outs w ++ [snd r])
+  | SClose => mkWorld (w_hist w) (w_ntrim w) (w_trimmed w) (close_stream (w_st w)) (w_deliv w) (w_outs w)
   end.
 
 Fixpoint exec (w : world) (script : list sstep) : world :=
@@ -351,11 +422,12 @@ Fixpoint exec (w : world) (script : list sstep) : world :=
   | s :: t => exec (exec_step w s) t
   end.
 
-(* event identities are unique: every commit brings fresh ids *)
+(* event ids are timestamps handed out by a strictly increasing clock (C08):
+   every commit brings ids above all earlier ones *)
 Fixpoint script_ok (hist : list event) (script : list sstep) : Prop :=
   match script with
   | [] => True
-  | SCommit evs :: t => NoDup (ids (hist ++ evs)) /\ script_ok (hist ++ evs) t
+  | SCommit evs :: t => increasing ts_zero (hist ++ evs) /\ script_ok (hist ++ evs) t
   | _ :: t => script_ok hist t
   end.
 
@@ -372,470 +444,521 @@ Proof.
   destruct l as [|x t]; [rewrite skipn_nil; reflexivity|]. apply IH.
 Qed.
 
+Lemma firstn_add : forall (A : Type) n k (l : list A), firstn (n + k) l = firstn n l ++ firstn k (skipn n l).
+Proof.
+  intros A n k; induction n as [|n IH]; intros l; [reflexivity|].
+  destruct l as [|x t]; simpl; [rewrite firstn_nil; reflexivity|]. f_equal. apply IH.
+Qed.
+
+Lemma firstn_min : forall (A : Type) m (l : list A), firstn (Nat.min m (length l)) l = firstn m l.
+Proof.
+  intros A m l. destruct (Nat.le_ge_cases m (length l)) as [H|H].
+  - rewrite Nat.min_l by exact H. reflexivity.
+  - rewrite Nat.min_r by exact H. rewrite firstn_all. symmetry. apply firstn_all2. exact H.
+Qed.
+
 (* the STrim step is the model's `trim` (prefix removal) on the oplog *)
 Lemma w_log_trim : forall w k, w_log (exec_step w (STrim k)) = trim k (w_log w).
 Proof.
   intros w k; unfold w_log, trim; simpl. rewrite skipn_min, skipn_skipn'. reflexivity.
 Qed.
 
-Lemma w_log_commit : forall w evs, w_ntrim w <= length (w_hist w) ->
-  w_log (exec_step w (SCommit evs)) = w_log w ++ evs.
+(* Catalog.Trimmed as a function of the ghost history: the id of the newest removed event *)
+Definition trimmed_of (hist : list event) (n : nat) : Z := last_id ts_zero (firstn n hist).
+
+Lemma trimmed_after_of : forall hist n k,
+  trimmed_after k (skipn n hist) (trimmed_of hist n) = trimmed_of hist (Nat.min (n + k) (length hist)).
 Proof.
-  intros w evs H; unfold w_log; simpl. rewrite skipn_app.
-  replace (w_ntrim w - length (w_hist w)) with 0 by lia. reflexivity.
+  intros hist n k. unfold trimmed_after, trimmed_of.
+  rewrite firstn_min, firstn_add, last_id_app. reflexivity.
 Qed.
 
 (* ---- the invariant ---- *)
 
 (* pre: the events before the stream's start position (fixed);
-   mid: the events the stream has passed since (delivered, skipped as out of
-        scope, or jumped over); post: the events still ahead of it *)
+   mid: the events the stream has passed since (delivered or skipped as out of
+        scope); post: the events still ahead of it.  The position slast is at
+        or above every id of pre ++ mid and below every id of post. *)
 Record inv (h : handle) (pre : list event) (w : world) (mid post : list event) : Prop := mkInv {
   i_hist : w_hist w = pre ++ mid ++ post;
-  i_nodup : NoDup (ids (w_hist w));
-  i_ntrim : w_ntrim w <= length (w_hist w);
+  i_inc : increasing ts_zero (w_hist w);
+  i_ntrim : (w_ntrim w <= length (w_hist w))%nat;
+  i_trimmed : w_trimmed w = trimmed_of (w_hist w) (w_ntrim w);
   i_h : sh (w_st w) = h;
-  i_anchor : match slast (w_st w) with
-             | None => w_ntrim w = length (pre ++ mid)
-             | Some id => exists A e, pre ++ mid = A ++ [e] /\ eid e = id
-             end;
+  i_lo : ts_zero <= slast (w_st w);
+  i_behind : forall x, In x (pre ++ mid) -> eid x <= slast (w_st w);
+  i_ahead : increasing (slast (w_st w)) post;
   i_sound : subseq (w_deliv w) (filter (in_scope h) mid);
-  i_gap : w_jumped w = false -> forall rest,
+  i_gap : forall rest,
           expected h (mid ++ rest) = w_deliv w ++ (if sdropped (w_st w) then [] else expected h rest)
 }.
 
-Lemma pending_inv : forall h pre w mid post, inv h pre w mid post ->
-  pending (w_st w) (w_log w) =
-    match slast (w_st w) with
-    | None => Some post
-    | Some _ => if w_ntrim w <? length (pre ++ mid) then Some post else None
-    end.
+(* retention has removed an event the stream has not passed  <->  Trimmed is above its position *)
+Lemma inv_lost_iff : forall h pre w mid post, inv h pre w mid post ->
+  (slast (w_st w) < w_trimmed w <-> (length (pre ++ mid) < w_ntrim w)%nat).
 Proof.
-  intros h pre w mid post I. destruct I as [Hh Hnd Hnt _ Han _ _].
-  unfold pending, w_log. destruct (slast (w_st w)) as [id|].
-  - destruct Han as (A & e & HA & He).
-    assert (Hh' : w_hist w = A ++ e :: post).
-    { rewrite Hh, app_assoc, HA, <- app_assoc. reflexivity. }
-    rewrite Hh' in *. rewrite ids_app in Hnd. simpl in Hnd.
-    assert (HnA : ~ In id (ids A)).
-    { intros C. eapply (NoDup_app_disj _ _ _ _ Hnd C). left; exact He. }
-    assert (Hnp : ~ In id (ids post)).
-    { apply NoDup_app_r in Hnd. inversion Hnd; subst. assumption. }
-    rewrite HA, app_length; simpl.
-    destruct (Nat.ltb_spec (w_ntrim w) (length A + 1)) as [L|L].
-    + rewrite skipn_app. replace (w_ntrim w - length A) with 0 by lia. simpl.
-      apply find_after_app; [|exact He].
-      intros C. apply HnA. unfold ids in *. apply in_map_iff in C. destruct C as (x & Hx & Hin).
-      apply in_map_iff. exists x; split; [exact Hx|]. eapply in_skipn; exact Hin.
-    + rewrite skipn_app. rewrite skipn_all2 by lia. simpl.
-      destruct (w_ntrim w - length A) as [|m] eqn:Em; [lia|]. simpl.
-      apply find_after_none. intros C. apply Hnp. unfold ids in *. apply in_map_iff in C.
-      destruct C as (x & Hx & Hin). apply in_map_iff. exists x; split; [exact Hx|]. eapply in_skipn; exact Hin.
-  - rewrite Hh, app_assoc, skipn_app, Han. rewrite skipn_all, Nat.sub_diag. reflexivity.
+  intros h pre w mid post I. destruct I as [Hh Hinc Hnt Htr _ Hlo Hb Ha _ _].
+  rewrite Htr. unfold trimmed_of. rewrite Hh, app_assoc in *.
+  set (P := pre ++ mid) in *. split.
+  - intros L. destruct (Nat.lt_ge_cases (length P) (w_ntrim w)) as [G|G]; [exact G|exfalso].
+    rewrite firstn_app in L. replace (w_ntrim w - length P)%nat with 0%nat in L by lia.
+    simpl in L. rewrite app_nil_r in L.
+    apply increasing_app in Hinc. destruct Hinc as [Hp _].
+    rewrite <- (firstn_skipn (w_ntrim w) P) in Hp. apply increasing_app in Hp. destruct Hp as [Hp _].
+    unfold last_id in L. destruct (last_event (firstn (w_ntrim w) P)) as [x|] eqn:E.
+    + apply last_event_in' in E. apply in_firstn in E. specialize (Hb x E). lia.
+    + lia.
+  - intros G. rewrite firstn_app, last_id_app.
+    destruct (firstn (w_ntrim w - length P) post) as [|y r] eqn:F.
+    { destruct post; [rewrite firstn_nil in F|]; simpl in *.
+      - rewrite app_length in Hnt. simpl in Hnt. lia.
+      - destruct (w_ntrim w - length P)%nat eqn:D; [lia|discriminate]. }
+    assert (Hy : In y post) by (eapply in_firstn; rewrite F; left; reflexivity).
+    apply increasing_app in Hinc. destruct Hinc as [_ Hpost].
+    rewrite <- (firstn_skipn (w_ntrim w - length P) post), F in Ha.
+    apply increasing_app in Ha. destruct Ha as [Ha _].
+    pose proof (increasing_last_id _ _ (proj2 Ha)) as L1. destruct Ha as [L0 _].
+    rewrite last_id_cons. lia.
+Qed.
+
+(* when nothing ahead of the stream has been removed, what lies ahead of it in the oplog is post *)
+Lemma pending_inv : forall h pre w mid post, inv h pre w mid post ->
+  (w_ntrim w <= length (pre ++ mid))%nat ->
+  pending (w_st w) (w_log w) = post.
+Proof.
+  intros h pre w mid post I G. destruct I as [Hh _ _ _ _ _ Hb Ha _ _].
+  unfold pending, w_log. rewrite Hh, app_assoc, skipn_app.
+  replace (w_ntrim w - length (pre ++ mid))%nat with 0%nat by lia. simpl.
+  rewrite after_app_le; [apply after_gt; exact Ha|].
+  intros x Hx. apply Hb. eapply in_skipn; exact Hx.
 Qed.
 
 (* steps that leave history, retention, deliveries and the stream's position alone *)
 Lemma inv_same : forall h pre w w' mid post,
   inv h pre w mid post ->
-  w_hist w' = w_hist w -> w_ntrim w' = w_ntrim w -> w_deliv w' = w_deliv w -> w_jumped w' = w_jumped w ->
+  w_hist w' = w_hist w -> w_ntrim w' = w_ntrim w -> w_trimmed w' = w_trimmed w -> w_deliv w' = w_deliv w ->
   sh (w_st w') = sh (w_st w) -> slast (w_st w') = slast (w_st w) -> sdropped (w_st w') = sdropped (w_st w) ->
   inv h pre w' mid post.
 Proof.
-  intros h pre w w' mid post [H1 H2 H3 H4 H5 H6 H7] E1 E2 E3 E4 E5 E6 E7.
-  constructor; rewrite ?E1, ?E2, ?E3, ?E5, ?E6, ?E7; auto.
-  rewrite E4; exact H7.
+  intros h pre w w' mid post [H1 H2 H3 H4 H5 H6 H7 H8 H9 H10] E1 E2 E3 E4 E5 E6 E7.
+  constructor; rewrite ?E1, ?E2, ?E3, ?E4, ?E5, ?E6, ?E7; auto.
 Qed.
 
-(* the progress case of a pass: the first pending event is passed *)
+(* the progress case of a pass: the first event ahead is passed *)
 Lemma inv_progress : forall h pre w mid e post st' (deliver : bool),
   inv h pre w mid (e :: post) ->
   sdropped (w_st w) = false ->
-  sh st' = sh (w_st w) -> slast st' = Some (eid e) ->
+  sh st' = sh (w_st w) -> slast st' = eid e ->
   in_scope h e = deliver ->
   sdropped st' = (if deliver then drops h e else false) ->
   forall outs,
-  inv h pre (mkWorld (w_hist w) (w_ntrim w) st' (if deliver then w_deliv w ++ [e] else w_deliv w) outs (w_jumped w))
+  inv h pre (mkWorld (w_hist w) (w_ntrim w) (w_trimmed w) st' (if deliver then w_deliv w ++ [e] else w_deliv w) outs)
       (mid ++ [e]) post.
 Proof.
-  intros h pre w mid e post st' deliver [H1 H2 H3 H4 H5 H6 H7] Hd E1 E2 E3 E4 outs.
+  intros h pre w mid e post st' deliver [H1 H2 H3 H4 H5 H6 H7 H8 H9 H10] Hd E1 E2 E3 E4 outs.
+  destruct H8 as [Hlt Hpost].
   constructor; simpl; auto.
   - rewrite H1, <- !app_assoc. reflexivity.
-  - rewrite E1; exact H4.
-  - rewrite E2. exists (pre ++ mid), e. rewrite app_assoc. auto.
+  - rewrite E1; exact H5.
+  - rewrite E2. lia.
+  - rewrite E2. intros x Hx. rewrite app_assoc in Hx. apply in_app_or in Hx. destruct Hx as [Hx|[<-|[]]].
+    + specialize (H7 x Hx). lia.
+    + lia.
+  - rewrite E2. exact Hpost.
   - rewrite filter_app; simpl. rewrite E3. destruct deliver.
-    + apply subseq_app; [exact H6|apply subseq_refl].
-    + rewrite app_nil_r; exact H6.
-  - intros J rest. specialize (H7 J (e :: rest)). rewrite Hd in H7.
-    rewrite <- app_assoc. simpl. rewrite H7. simpl. rewrite E3, E4. destruct deliver.
+    + apply subseq_app; [exact H9|apply subseq_refl].
+    + rewrite app_nil_r; exact H9.
+  - intros rest. specialize (H10 (e :: rest)). rewrite Hd in H10.
+    rewrite <- app_assoc. simpl. rewrite H10. simpl. rewrite E3, E4. destruct deliver.
     + rewrite <- app_assoc. reflexivity.
     + reflexivity.
 Qed.
 
+(* every step except a commit (those leave the history alone) *)
 Lemma inv_step : forall h pre w mid post s,
   inv h pre w mid post ->
-  (match s with SCommit evs => NoDup (ids (w_hist w ++ evs)) | _ => True end) ->
-  exists mid' post', inv h pre (exec_step w s) mid' post'.
+  (match s with SCommit _ => False | _ => True end) ->
+  exists mid' post', inv h pre (exec_step w s) mid' post' /\
+    ((mid' = mid /\ slast (w_st (exec_step w s)) = slast (w_st w)) \/
+     (exists e, mid' = mid ++ [e] /\ slast (w_st (exec_step w s)) = eid e)).
 Proof.
-  intros h pre w mid post s I Hok. destruct s as [evs|k|b c|].
-  - (* commit *)
-    exists mid, (post ++ evs). destruct I as [H1 H2 H3 H4 H5 H6 H7].
+  intros h pre w mid post s I Hok. destruct s as [evs|k|b c|]; [contradiction| | |].
+  - (* trim: only Catalog.Trimmed and the oplog change *)
+    exists mid, post. split; [|left; auto]. destruct I as [H1 H2 H3 H4 H5 H6 H7 H8 H9 H10].
     constructor; simpl; auto.
-    + rewrite H1, <- !app_assoc. reflexivity.
-    + rewrite app_length; lia.
-  - (* trim *)
-    destruct (slast (w_st w)) as [id|] eqn:L.
-    + exists mid, post. destruct I as [H1 H2 H3 H4 H5 H6 H7].
-      constructor; simpl; auto.
-      * apply Nat.le_min_r.
-      * rewrite L in *. exact H5.
-      * rewrite L; simpl. rewrite orb_false_r. exact H7.
-    + pose proof I as [H1 H2 H3 H4 H5 H6 H7]. rewrite L in H5.
-      set (n' := Nat.min (w_ntrim w + k) (length (w_hist w))).
-      set (j := n' - w_ntrim w).
-      assert (Hj : j <= length post).
-      { subst j n'. rewrite H1. rewrite app_length in H5. rewrite !app_length. lia. }
-      exists (mid ++ firstn j post), (skipn j post).
-      constructor; simpl; auto.
-      * rewrite H1. rewrite <- app_assoc, firstn_skipn. reflexivity.
-      * apply Nat.le_min_r.
-      * rewrite L. fold n'. rewrite app_assoc, app_length, firstn_length_le by exact Hj.
-        subst j. assert (w_ntrim w <= n'). { subst n'. apply Nat.min_glb; lia. } lia.
-      * rewrite filter_app. apply subseq_app_r. exact H6.
-      * rewrite L; simpl. fold n'. intros J. apply orb_false_elim in J. destruct J as [J1 J2].
-        apply Nat.ltb_ge in J2.
-        assert (Ej : j = 0) by (subst j; lia). rewrite Ej; simpl. rewrite app_nil_r. exact (H7 J1).
+    + apply Nat.le_min_r.
+    + unfold w_log. rewrite H4. apply trimmed_after_of.
   - (* one pass of next *)
-    pose proof (pending_inv _ _ _ _ _ I) as P.
     simpl. unfold next_iter.
     destruct (is_some (serror (w_st w)) || sclosed (w_st w)) eqn:V.
-    { exists mid, post. eapply inv_same; eauto. }
+    { exists mid, post. split; [eapply inv_same; eauto|left; auto]. }
     destruct (sdropped (w_st w)) eqn:D.
-    { exists mid, post. eapply inv_same; eauto. }
-    destruct (pending (w_st w) (w_log w)) as [[|e t]|] eqn:Pe.
-    + exists mid, post. destruct b; simpl.
-      * eapply inv_same; eauto.
-      * destruct c; simpl; eapply inv_same; eauto.
-    + assert (Hpost : post = e :: t).
-      { destruct (slast (w_st w)); [destruct (w_ntrim w <? length (pre ++ mid))|]; congruence. }
-      subst post. exists (mid ++ [e]), t.
+    { exists mid, post. split; [eapply inv_same; eauto|left; auto]. }
+    destruct (Z.ltb_spec (slast (w_st w)) (w_trimmed w)) as [L|L].
+    { exists mid, post. split; [eapply inv_same; eauto|left; auto]. }
+    assert (G : (w_ntrim w <= length (pre ++ mid))%nat).
+    { destruct (Nat.le_gt_cases (w_ntrim w) (length (pre ++ mid))) as [G|G]; [exact G|].
+      apply (inv_lost_iff _ _ _ _ _ I) in G. lia. }
+    rewrite (pending_inv _ _ _ _ _ I G).
+    destruct post as [|e t].
+    + exists mid, []. destruct b; simpl.
+      * split; [eapply inv_same; eauto|left; auto].
+      * destruct c; simpl; (split; [eapply inv_same; eauto|left; auto]).
+    + exists (mid ++ [e]), t.
       pose proof (i_h _ _ _ _ _ I) as Hh.
       destruct (in_scope (sh (w_st w)) e) eqn:S; simpl.
-      * apply (inv_progress h pre w mid e t _ true); auto; simpl; congruence.
-      * apply (inv_progress h pre w mid e t _ false); auto; simpl; congruence.
-    + exists mid, post. eapply inv_same; eauto.
+      * split; [|right; exists e; auto].
+        apply (inv_progress h pre w mid e t _ true); auto; simpl; congruence.
+      * split; [|right; exists e; auto].
+        apply (inv_progress h pre w mid e t _ false); auto; simpl; congruence.
   - (* Close *)
-    exists mid, post. eapply inv_same; eauto; simpl; unfold close_stream; destruct (sclosed (w_st w)); reflexivity.
+    exists mid, post. split; [|left; split; [reflexivity|simpl; unfold close_stream; destruct (sclosed (w_st w)); reflexivity]].
+    eapply inv_same; eauto; simpl; unfold close_stream; destruct (sclosed (w_st w)); reflexivity.
+Qed.
+
+(* ---- the invariant relative to a start position z (an id timestamp): pre is
+        whatever lies at or below z — a start time may even lie in the future ---- *)
+
+Lemma after_app_stop : forall z l e t r, after z l = e :: t -> after z (l ++ r) = e :: t ++ r.
+Proof.
+  induction l as [|x l IH]; simpl; intros e t r H; [discriminate|].
+  destruct (Z.leb (eid x) z); [apply IH; exact H|]. inversion H; subst. reflexivity.
+Qed.
+
+Lemma after_app_all : forall z l r, after z l = [] -> after z (l ++ r) = after z r.
+Proof.
+  induction l as [|x l IH]; simpl; intros r H; [reflexivity|].
+  destruct (Z.leb (eid x) z); [apply IH; exact H|discriminate].
+Qed.
+
+Lemma before_app_stop : forall z l e t r, after z l = e :: t -> before z (l ++ r) = before z l.
+Proof.
+  induction l as [|x l IH]; simpl; intros e t r H; [discriminate|].
+  destruct (Z.leb (eid x) z); [f_equal; eapply IH; exact H|reflexivity].
+Qed.
+
+Lemma before_app_all : forall z l r, after z l = [] -> before z (l ++ r) = l ++ before z r.
+Proof.
+  induction l as [|x l IH]; simpl; intros r H; [reflexivity|].
+  destruct (Z.leb (eid x) z); [f_equal; apply IH; exact H|discriminate].
+Qed.
+
+Lemma last_id_nonempty : forall l a b, l <> [] -> last_id a l = last_id b l.
+Proof. intros [|e t] a b H; [contradiction|]. rewrite !last_id_cons. reflexivity. Qed.
+
+Definition sinv (h : handle) (z : Z) (w : world) (mid post : list event) : Prop :=
+  inv h (before z (w_hist w)) w mid post /\ slast (w_st w) = last_id z mid /\ ts_zero <= z.
+
+Lemma sinv_after : forall h z w mid post, sinv h z w mid post -> after z (w_hist w) = mid ++ post.
+Proof.
+  intros h z w mid post [I _]. pose proof (i_hist _ _ _ _ _ I) as H.
+  rewrite (before_after z (w_hist w)) in H at 1. apply app_inv_head in H. exact H.
+Qed.
+
+Lemma sinv_step : forall h z w mid post s,
+  sinv h z w mid post ->
+  (match s with SCommit evs => increasing ts_zero (w_hist w ++ evs) | _ => True end) ->
+  exists mid' post', sinv h z (exec_step w s) mid' post'.
+Proof.
+  intros h z w mid post s SI Hok. pose proof (sinv_after _ _ _ _ _ SI) as Haf.
+  destruct SI as (I & Hpos & Hz).
+  destruct s as [evs|k|b c|].
+  - (* commit *)
+    destruct I as [H1 H2 H3 H4 H5 H6 H7 H8 H9 H10]. simpl.
+    assert (Htr : trimmed_of (w_hist w ++ evs) (w_ntrim w) = trimmed_of (w_hist w) (w_ntrim w)).
+    { unfold trimmed_of. rewrite firstn_app.
+      replace (w_ntrim w - length (w_hist w))%nat with 0%nat by lia. simpl. rewrite app_nil_r. reflexivity. }
+    destruct (after z (w_hist w)) as [|e t] eqn:A.
+    + (* nothing above z yet: the new events at or below z fall behind the start *)
+      symmetry in Haf. apply app_eq_nil in Haf. destruct Haf as [-> ->].
+      exists [], (after z evs). split; [|split; [exact Hpos|exact Hz]]. simpl.
+      simpl in Hpos. unfold last_id in Hpos; simpl in Hpos.
+      rewrite (before_app_all _ _ _ A).
+      assert (Hall : w_hist w = before z (w_hist w)).
+      { rewrite (before_after z (w_hist w)) at 1. rewrite A, app_nil_r. reflexivity. }
+      constructor; simpl; auto.
+      * rewrite <- app_assoc. f_equal. apply before_after.
+      * rewrite app_length; lia.
+      * rewrite Htr; exact H4.
+      * intros x Hx. rewrite app_nil_r in Hx. apply in_app_or in Hx. destruct Hx as [Hx|Hx].
+        -- apply H7. rewrite app_nil_r, <- Hall. exact Hx.
+        -- apply before_le in Hx. lia.
+      * rewrite Hpos. apply increasing_app in Hok. destruct Hok as [_ Hev].
+        eapply after_increasing; exact Hev.
+    + (* the new events are ahead of the stream *)
+      exists mid, (post ++ evs). split; [|split; [exact Hpos|exact Hz]]. simpl.
+      rewrite (before_app_stop _ _ _ _ _ A).
+      constructor; simpl; auto.
+      * transitivity ((before z (w_hist w) ++ mid ++ post) ++ evs); [f_equal; exact H1|].
+        rewrite <- !app_assoc. reflexivity.
+      * rewrite app_length; lia.
+      * rewrite Htr; exact H4.
+      * apply increasing_app. split; [exact H8|].
+        assert (Hq : increasing (last_id ts_zero (before z (w_hist w) ++ mid)) (post ++ evs)).
+        { replace (w_hist w ++ evs) with ((before z (w_hist w) ++ mid) ++ post ++ evs) in Hok.
+          - apply increasing_app in Hok. tauto.
+          - transitivity ((before z (w_hist w) ++ mid ++ post) ++ evs);
+              [rewrite <- !app_assoc; reflexivity|f_equal; symmetry; exact H1]. }
+        apply increasing_app in Hq. destruct Hq as [_ Hq].
+        replace (last_id (slast (w_st w)) post) with
+                (last_id (last_id ts_zero (before z (w_hist w) ++ mid)) post); [exact Hq|].
+        destruct mid as [|m mid'].
+        -- simpl in Haf. apply last_id_nonempty. rewrite <- Haf. discriminate.
+        -- f_equal. rewrite last_id_app, Hpos. apply last_id_nonempty. discriminate.
+  - destruct (inv_step h _ w mid post (STrim k) I Logic.I) as (mid' & post' & I' & [[-> E]|(e & -> & E)]).
+    + exists mid, post'. split; [exact I'|split; [rewrite E; exact Hpos|exact Hz]].
+    + exists (mid ++ [e]), post'. split; [exact I'|split; [|exact Hz]].
+      rewrite E, last_id_app. reflexivity.
+  - destruct (inv_step h _ w mid post (SIter b c) I Logic.I) as (mid' & post' & I' & [[-> E]|(e & -> & E)]).
+    + exists mid, post'. split; [exact I'|split; [rewrite E; exact Hpos|exact Hz]].
+    + exists (mid ++ [e]), post'. split; [exact I'|split; [|exact Hz]].
+      rewrite E, last_id_app. reflexivity.
+  - destruct (inv_step h _ w mid post SClose I Logic.I) as (mid' & post' & I' & [[-> E]|(e & -> & E)]).
+    + exists mid, post'. split; [exact I'|split; [rewrite E; exact Hpos|exact Hz]].
+    + exists (mid ++ [e]), post'. split; [exact I'|split; [|exact Hz]].
+      rewrite E, last_id_app. reflexivity.
 Qed.
 
 Lemma exec_step_hist : forall w s,
   w_hist (exec_step w s) = match s with SCommit evs => w_hist w ++ evs | _ => w_hist w end.
 Proof. intros w [evs|k|b c|]; reflexivity. Qed.
 
-Lemma exec_inv : forall script h pre w mid post,
-  inv h pre w mid post -> script_ok (w_hist w) script ->
-  exists mid' post', inv h pre (exec w script) mid' post'.
+Lemma sexec_inv : forall script h z w mid post,
+  sinv h z w mid post -> script_ok (w_hist w) script ->
+  exists mid' post', sinv h z (exec w script) mid' post'.
 Proof.
-  induction script as [|s t IH]; intros h pre w mid post I Hok; simpl.
+  induction script as [|s t IH]; intros h z w mid post I Hok; simpl.
   - exists mid, post; exact I.
-  - destruct (inv_step h pre w mid post s I) as (mid' & post' & I').
+  - destruct (sinv_step h z w mid post s I) as (mid' & post' & I').
     { destruct s; simpl in Hok; tauto. }
     eapply IH; [exact I'|].
     rewrite exec_step_hist. destruct s; simpl in Hok; tauto.
 Qed.
 
-(* the events after the start position are mid ++ post *)
-Lemma inv_after : forall h pre w mid post, inv h pre w mid post ->
-  skipn (length pre) (w_hist w) = mid ++ post.
-Proof.
-  intros h pre w mid post I. rewrite (i_hist _ _ _ _ _ I), skipn_app, skipn_all, Nat.sub_diag. reflexivity.
-Qed.
-
 (* ---- delivery ---- *)
 
-(* For EVERY interleaving of commits, retention trims, single passes of
-   next's loop (Next or TryNext, cancelled context or not) and Close: what
-   the stream has returned is a subsequence of the in-scope events committed
-   after its start position, in commit order, each at most once; and it is
-   gap-free — a PREFIX of the expected sequence — unless a trim removed events
-   while the stream held no reference event (w_jumped, the known defect). *)
-Theorem delivery : forall h pre w0 post0 script,
-  inv h pre w0 [] post0 -> script_ok (w_hist w0) script ->
+(* For EVERY stream (start position z = its initial s.last) and EVERY
+   interleaving of commits, retention trims, single passes of next's loop
+   (Next or TryNext, cancelled context or not) and Close: what the stream has
+   returned is a subsequence of the in-scope events with an id above z, in
+   commit order, each at most once, and it is gap-free: a PREFIX of the
+   expected sequence. *)
+Theorem delivery : forall h z w0 post0 script,
+  sinv h z w0 [] post0 -> script_ok (w_hist w0) script ->
   let w := exec w0 script in
-  let after := skipn (length pre) (w_hist w) in
-  subseq (w_deliv w) (filter (in_scope h) after) /\
+  let after_start := after z (w_hist w) in
+  subseq (w_deliv w) (filter (in_scope h) after_start) /\
   NoDup (ids (w_deliv w)) /\
-  (w_jumped w = false -> prefix (w_deliv w) (expected h after)).
+  prefix (w_deliv w) (expected h after_start).
 Proof.
-  intros h pre w0 post0 script I0 Hok w after.
-  destruct (exec_inv script h pre w0 [] post0 I0 Hok) as (mid & post & I). fold w in I.
-  subst after. rewrite (inv_after _ _ _ _ _ I).
+  intros h z w0 post0 script I0 Hok w after_start.
+  destruct (sexec_inv script h z w0 [] post0 I0 Hok) as (mid & post & SI). fold w in SI.
+  subst after_start. rewrite (sinv_after _ _ _ _ _ SI). destruct SI as (I & _ & _).
   assert (S1 : subseq (w_deliv w) (filter (in_scope h) (mid ++ post))).
   { rewrite filter_app. apply subseq_app_r. exact (i_sound _ _ _ _ _ I). }
   split; [exact S1|]. split.
-  - eapply subseq_NoDup; [|exact (i_nodup _ _ _ _ _ I)].
+  - eapply subseq_NoDup; [|eapply increasing_NoDup; exact (i_inc _ _ _ _ _ I)].
     unfold ids. apply subseq_map. rewrite (i_hist _ _ _ _ _ I).
     apply subseq_app_l. eapply subseq_trans; [apply subseq_filter|exact S1].
-  - intros J. pose proof (i_gap _ _ _ _ _ I J post) as G. rewrite G. eexists; reflexivity.
-Qed.
-
-(* the reference event, once there, is never given up *)
-Lemma next_iter_anchor : forall b c s log, slast s <> None -> slast (fst (next_iter b c s log)) <> None.
-Proof.
-  intros b c s log H; unfold next_iter.
-  destruct (is_some (serror s) || sclosed s); [exact H|].
-  destruct (sdropped s); [exact H|].
-  destruct (pending s log) as [[|e t]|]; simpl; try exact H.
-  - destruct b; [exact H|]. destruct c; exact H.
-  - destruct (in_scope (sh s) e); simpl; discriminate.
-Qed.
-
-Lemma exec_step_anchor : forall w s, slast (w_st w) <> None -> slast (w_st (exec_step w s)) <> None.
-Proof.
-  intros w [evs|k|b c|] H; simpl; auto.
-  - apply next_iter_anchor; exact H.
-  - unfold close_stream; destruct (sclosed (w_st w)); exact H.
-Qed.
-
-Lemma exec_anchor : forall script w, slast (w_st w) <> None -> slast (w_st (exec w script)) <> None.
-Proof. induction script as [|s t IH]; intros w H; simpl; [exact H|]. apply IH, exec_step_anchor, H. Qed.
-
-Lemma anchored_never_jumps : forall script w,
-  slast (w_st w) <> None -> w_jumped w = false -> w_jumped (exec w script) = false.
-Proof.
-  induction script as [|s t IH]; intros w H J; simpl; [exact J|].
-  apply IH; [apply exec_step_anchor; exact H|].
-  destruct s; simpl; auto. destruct (slast (w_st w)); [|congruence]. simpl. rewrite J; reflexivity.
-Qed.
-
-(* a stream whose start position is an event (resume token, start time inside
-   the retained log, or "now" on a non-empty oplog) never skips *)
-Corollary delivery_anchored : forall h pre w0 post0 script,
-  inv h pre w0 [] post0 -> script_ok (w_hist w0) script ->
-  slast (w_st w0) <> None -> w_jumped w0 = false ->
-  let w := exec w0 script in
-  prefix (w_deliv w) (expected h (skipn (length pre) (w_hist w))).
-Proof.
-  intros h pre w0 post0 script I Hok A J w.
-  destruct (delivery h pre w0 post0 script I Hok) as (_ & _ & G).
-  apply G. apply anchored_never_jumps; assumption.
+  - pose proof (i_gap _ _ _ _ _ I post) as G. rewrite G. eexists; reflexivity.
 Qed.
 
 (* ---- the stream's position in the history ---- *)
 
-Fixpoint index_of (id : Z) (l : list event) : nat :=
-  match l with
-  | [] => 0
-  | e :: t => if Z.eqb (eid e) id then 0 else S (index_of id t)
-  end.
-
 (* number of history events behind the stream *)
 Definition position (w : world) : nat :=
-  match slast (w_st w) with
-  | None => w_ntrim w
-  | Some id => S (index_of id (w_hist w))
-  end.
+  length (filter (fun e => Z.leb (eid e) (slast (w_st w))) (w_hist w)).
 
-Lemma index_of_app : forall id a e b, ~ In id (ids a) -> eid e = id -> index_of id (a ++ e :: b) = length a.
+Lemma filter_all : forall (A : Type) (f : A -> bool) l, (forall x, In x l -> f x = true) -> filter f l = l.
 Proof.
-  induction a as [|x t IH]; simpl; intros e b H E.
-  - rewrite E, Z.eqb_refl; reflexivity.
-  - destruct (Z.eqb_spec (eid x) id) as [E'|E'].
-    + exfalso; apply H; left; exact E'.
-    + f_equal. apply IH; [intros C; apply H; right; exact C|exact E].
+  induction l as [|x t IH]; intros H; [reflexivity|]. simpl.
+  rewrite (H x (or_introl eq_refl)). f_equal. apply IH. intros y Hy; apply H; right; exact Hy.
+Qed.
+
+Lemma filter_none : forall (A : Type) (f : A -> bool) l, (forall x, In x l -> f x = false) -> filter f l = [].
+Proof.
+  induction l as [|x t IH]; intros H; [reflexivity|]. simpl.
+  rewrite (H x (or_introl eq_refl)). apply IH. intros y Hy; apply H; right; exact Hy.
 Qed.
 
 Lemma inv_position : forall h pre w mid post, inv h pre w mid post -> position w = length (pre ++ mid).
 Proof.
-  intros h pre w mid post I. unfold position. pose proof (i_anchor _ _ _ _ _ I) as Han.
-  destruct (slast (w_st w)) as [id|]; [|exact Han].
-  destruct Han as (A & e & HA & He).
-  pose proof (i_nodup _ _ _ _ _ I) as Hnd.
-  assert (Hh' : w_hist w = A ++ e :: post).
-  { rewrite (i_hist _ _ _ _ _ I), app_assoc, HA, <- app_assoc. reflexivity. }
-  rewrite Hh' in *. rewrite ids_app in Hnd. simpl in Hnd.
-  rewrite index_of_app; [rewrite HA, app_length; simpl; lia| |exact He].
-  intros C. eapply (NoDup_app_disj _ _ _ _ Hnd C). left; exact He.
+  intros h pre w mid post I. unfold position.
+  rewrite (i_hist _ _ _ _ _ I), app_assoc, filter_app.
+  rewrite filter_all, filter_none; [rewrite app_nil_r; reflexivity| |].
+  - intros x Hx. pose proof (increasing_gt _ _ _ (i_ahead _ _ _ _ _ I) Hx).
+    destruct (Z.leb_spec (eid x) (slast (w_st w))); [lia|reflexivity].
+  - intros x Hx. pose proof (i_behind _ _ _ _ _ I x Hx).
+    destruct (Z.leb_spec (eid x) (slast (w_st w))); [reflexivity|lia].
 Qed.
 
-(* ---- lost position ---- *)
+(* ---- lost position: FULL statement ---- *)
 
-Lemma lost_when_anchor_trimmed : forall h pre w mid post,
-  inv h pre w mid post ->
-  slast (w_st w) <> None -> live (w_st w) -> sdropped (w_st w) = false ->
-  position w <= w_ntrim w ->
-  forall b c, snd (next_iter b c (w_st w) (w_log w)) = Return Lost.
-Proof.
-  intros h pre w mid post I A [L1 L2] D P b c.
-  pose proof (pending_inv _ _ _ _ _ I) as Pe. rewrite (inv_position _ _ _ _ _ I) in P.
-  unfold next_iter. rewrite L1, L2, D. simpl.
-  destruct (slast (w_st w)) as [id|]; [|congruence].
-  destruct (Nat.ltb_spec (w_ntrim w) (length (pre ++ mid))); [lia|].
-  rewrite Pe. reflexivity.
-Qed.
-
-(* start position anchored at an event -> once retention has removed an event
-   the stream has not passed yet, the next pass of next (whatever commits,
-   trims and passes came before, in any interleaving) reports Lost *)
-Theorem lost_is_reported_partial : forall h pre w0 post0 script,
-  inv h pre w0 [] post0 -> script_ok (w_hist w0) script ->
-  slast (w_st w0) <> None ->
+(* For every stream and every interleaving: as soon as retention has removed an
+   event the stream has not passed yet, every pass of next reports Lost
+   (ErrLostOplogPosition) ... *)
+Theorem lost_is_reported : forall h z w0 post0 script,
+  sinv h z w0 [] post0 -> script_ok (w_hist w0) script ->
   let w := exec w0 script in
   live (w_st w) -> sdropped (w_st w) = false ->
-  position w < w_ntrim w ->
-  forall b c, snd (next_iter b c (w_st w) (w_log w)) = Return Lost.
+  (position w < w_ntrim w)%nat ->
+  forall b c, snd (next_iter b c (w_st w) (w_log w) (w_trimmed w)) = Return Lost.
 Proof.
-  intros h pre w0 post0 script I0 Hok A w L D P b c.
-  destruct (exec_inv script h pre w0 [] post0 I0 Hok) as (mid & post & I). fold w in I.
-  eapply lost_when_anchor_trimmed; eauto.
-  - apply exec_anchor; exact A.
-  - lia.
+  intros h z w0 post0 script I0 Hok w [L1 L2] D P b c.
+  destruct (sexec_inv script h z w0 [] post0 I0 Hok) as (mid & post & I & _). fold w in I.
+  rewrite (inv_position _ _ _ _ _ I) in P. apply (inv_lost_iff _ _ _ _ _ I) in P.
+  unfold next_iter. rewrite L1, L2, D. simpl.
+  destruct (Z.ltb_spec (slast (w_st w)) (w_trimmed w)); [reflexivity|lia].
 Qed.
 
-(* ---- completeness ---- *)
+(* ... and only then: Lost is never reported while every event ahead of the
+   stream is retained (a removed reference event alone is not an error) *)
+Theorem lost_only_if_trimmed : forall h z w0 post0 script,
+  sinv h z w0 [] post0 -> script_ok (w_hist w0) script ->
+  let w := exec w0 script in
+  forall b c, snd (next_iter b c (w_st w) (w_log w) (w_trimmed w)) = Return Lost ->
+  (position w < w_ntrim w)%nat.
+Proof.
+  intros h z w0 post0 script I0 Hok w b c H.
+  destruct (sexec_inv script h z w0 [] post0 I0 Hok) as (mid & post & I & _). fold w in I.
+  rewrite (inv_position _ _ _ _ _ I). apply (inv_lost_iff _ _ _ _ _ I).
+  unfold next_iter in H.
+  destruct (is_some (serror (w_st w)) || sclosed (w_st w)); [discriminate|].
+  destruct (sdropped (w_st w)); [discriminate|].
+  destruct (Z.ltb_spec (slast (w_st w)) (w_trimmed w)); [assumption|].
+  destruct (pending (w_st w) (w_log w)) as [|e t].
+  - destruct b; [discriminate|]. destruct c; discriminate.
+  - destruct (in_scope (sh (w_st w)) e); discriminate.
+Qed.
+
+(* ---- completeness: FULL statement ---- *)
 
 Definition drain (n : nat) (w : world) : world := exec w (repeat (SIter false false) n).
 
-(* the reference event (if any) is still in the oplog *)
-Definition anchor_retained (w : world) : Prop :=
-  match slast (w_st w) with
-  | None => True
-  | Some _ => w_ntrim w < position w
-  end.
-
-Lemma iter_dropped : forall b c s log, sdropped s = true -> sdropped (fst (next_iter b c s log)) = true.
+Lemma iter_dropped : forall b c s log tr, sdropped s = true -> sdropped (fst (next_iter b c s log tr)) = true.
 Proof.
-  intros b c s log H; unfold next_iter.
+  intros b c s log tr H; unfold next_iter.
   destruct (is_some (serror s) || sclosed s); [exact H|]. rewrite H. reflexivity.
-Qed.
-
-Lemma iter_dropped_deliv : forall b c s log, sdropped s = true ->
-  forall e, snd (next_iter b c s log) <> Return (Event e).
-Proof.
-  intros b c s log H e; unfold next_iter.
-  destruct (is_some (serror s) || sclosed s); [discriminate|]. rewrite H. discriminate.
 Qed.
 
 Lemma drain_S : forall n w, drain (S n) w = drain n (exec_step w (SIter false false)).
 Proof. reflexivity. Qed.
 
 Lemma drain_dropped : forall n h pre w mid post,
-  inv h pre w mid post -> w_jumped w = false -> sdropped (w_st w) = true ->
+  inv h pre w mid post -> sdropped (w_st w) = true ->
   w_deliv (drain n w) = expected h (mid ++ post) /\ w_hist (drain n w) = w_hist w.
 Proof.
-  induction n as [|n IH]; intros h pre w mid post I J D.
-  - simpl. split; [|reflexivity]. pose proof (i_gap _ _ _ _ _ I J post) as G. rewrite D, app_nil_r in G. auto.
+  induction n as [|n IH]; intros h pre w mid post I D.
+  - simpl. split; [|reflexivity]. pose proof (i_gap _ _ _ _ _ I post) as G. rewrite D, app_nil_r in G. auto.
   - rewrite drain_S.
-    destruct (inv_step h pre w mid post (SIter false false) I) as (mid' & post' & I'); [exact Logic.I|].
+    destruct (inv_step h pre w mid post (SIter false false) I Logic.I) as (mid' & post' & I' & _).
     assert (E : mid' ++ post' = mid ++ post).
     { pose proof (i_hist _ _ _ _ _ I') as H1. pose proof (i_hist _ _ _ _ _ I) as H2.
       simpl in H1. rewrite H2 in H1. apply app_inv_head in H1. auto. }
     destruct (IH h pre _ mid' post' I') as [G1 G2].
-    + simpl; exact J.
     + simpl. apply iter_dropped; exact D.
     + rewrite G1, G2, E. auto.
 Qed.
 
 Lemma drain_complete : forall n h pre w mid post,
-  inv h pre w mid post -> w_jumped w = false ->
-  (match slast (w_st w) with None => True | Some _ => w_ntrim w < length (pre ++ mid) end) ->
+  inv h pre w mid post ->
+  (w_ntrim w <= length (pre ++ mid))%nat ->
   serror (w_st w) = None -> (sclosed (w_st w) = false \/ sdropped (w_st w) = true) ->
-  length post <= n ->
+  (length post <= n)%nat ->
   w_deliv (drain n w) = expected h (mid ++ post) /\ w_hist (drain n w) = w_hist w.
 Proof.
-  induction n as [|n IH]; intros h pre w mid post I J A E C L.
+  induction n as [|n IH]; intros h pre w mid post I A E C L.
   - destruct post; [|simpl in L; lia]. simpl. split; [|reflexivity].
-    pose proof (i_gap _ _ _ _ _ I J []) as G. simpl in G. rewrite app_nil_r in *.
+    pose proof (i_gap _ _ _ _ _ I []) as G. simpl in G. rewrite app_nil_r in *.
     destruct (sdropped (w_st w)); rewrite app_nil_r in G; auto.
   - destruct (sdropped (w_st w)) eqn:D; [eapply drain_dropped; eauto|].
     destruct C as [C|C]; [|discriminate].
     rewrite drain_S.
-    pose proof (pending_inv _ _ _ _ _ I) as Pe.
-    assert (Pe' : pending (w_st w) (w_log w) = Some post).
-    { rewrite Pe. destruct (slast (w_st w)); [|reflexivity].
-      destruct (Nat.ltb_spec (w_ntrim w) (length (pre ++ mid))); [reflexivity|lia]. }
-    clear Pe.
+    pose proof (pending_inv _ _ _ _ _ I A) as Pe.
+    assert (NL : Z.ltb (slast (w_st w)) (w_trimmed w) = false).
+    { destruct (Z.ltb_spec (slast (w_st w)) (w_trimmed w)) as [X|X]; [|reflexivity].
+      apply (inv_lost_iff _ _ _ _ _ I) in X. lia. }
     destruct post as [|e t].
     + (* nothing ahead: the pass returns Nothing and changes nothing *)
       assert (Ew : exec_step w (SIter false false) =
-                   mkWorld (w_hist w) (w_ntrim w) (w_st w) (w_deliv w) (w_outs w ++ [Return Nothing]) (w_jumped w)).
-      { simpl. unfold next_iter. rewrite E, C, D, Pe'. reflexivity. }
+                   mkWorld (w_hist w) (w_ntrim w) (w_trimmed w) (w_st w) (w_deliv w) (w_outs w ++ [Return Nothing])).
+      { simpl. unfold next_iter. rewrite E, C, D, NL, Pe. reflexivity. }
       rewrite Ew.
-      set (w' := mkWorld (w_hist w) (w_ntrim w) (w_st w) (w_deliv w) (w_outs w ++ [Return Nothing]) (w_jumped w)).
+      set (w' := mkWorld (w_hist w) (w_ntrim w) (w_trimmed w) (w_st w) (w_deliv w) (w_outs w ++ [Return Nothing])).
       assert (I' : inv h pre w' mid []) by (apply (inv_same h pre w); auto).
-      destruct (IH h pre w' mid [] I' J A E (or_introl C)) as [G1 G2]; [simpl; lia|].
+      destruct (IH h pre w' mid [] I' A E (or_introl C)) as [G1 G2]; [simpl; lia|].
       split; [exact G1|exact G2].
-    + (* the first pending event is passed *)
+    + (* the first event ahead is passed *)
       pose proof (i_h _ _ _ _ _ I) as Hh.
-      assert (Hnt : w_ntrim w < length (pre ++ (mid ++ [e]))).
-      { pose proof (i_anchor _ _ _ _ _ I) as Han.
-        rewrite app_assoc, app_length; simpl. destruct (slast (w_st w)); lia. }
+      assert (Hnt : (w_ntrim w <= length (pre ++ (mid ++ [e])))%nat).
+      { rewrite app_assoc, app_length; simpl. lia. }
       assert (Hsplit : mid ++ e :: t = (mid ++ [e]) ++ t) by (rewrite <- app_assoc; reflexivity).
       rewrite Hsplit.
       destruct (in_scope (sh (w_st w)) e) eqn:S.
-      * set (st1 := mkS (sh (w_st w)) (Some (eid e)) (false || drops (sh (w_st w)) e) false None
+      * set (st1 := mkS (sh (w_st w)) (eid e) (false || drops (sh (w_st w)) e) false None
                         (Some (CurEvent e)) (Some (TokEvent (eid e)))).
         assert (Ew : exec_step w (SIter false false) =
-                     mkWorld (w_hist w) (w_ntrim w) st1 (w_deliv w ++ [e]) (w_outs w ++ [Return (Event e)]) (w_jumped w)).
-        { simpl. unfold next_iter. rewrite E, C, D, Pe', S. reflexivity. }
+                     mkWorld (w_hist w) (w_ntrim w) (w_trimmed w) st1 (w_deliv w ++ [e]) (w_outs w ++ [Return (Event e)])).
+        { simpl. unfold next_iter. rewrite E, C, D, NL, Pe, S. reflexivity. }
         rewrite Ew.
-        assert (I' : inv h pre (mkWorld (w_hist w) (w_ntrim w) st1 (w_deliv w ++ [e]) (w_outs w ++ [Return (Event e)]) (w_jumped w))
+        assert (I' : inv h pre (mkWorld (w_hist w) (w_ntrim w) (w_trimmed w) st1 (w_deliv w ++ [e]) (w_outs w ++ [Return (Event e)]))
                          (mid ++ [e]) t).
         { apply (inv_progress h pre w mid e t st1 true); auto.
           - rewrite <- Hh; exact S.
           - simpl. rewrite Hh. reflexivity. }
-        destruct (IH h pre _ (mid ++ [e]) t I' J Hnt eq_refl (or_introl eq_refl)) as [G1 G2]; [simpl in L; lia|].
+        destruct (IH h pre _ (mid ++ [e]) t I' Hnt eq_refl (or_introl eq_refl)) as [G1 G2]; [simpl in L; lia|].
         split; [exact G1|exact G2].
-      * set (st1 := mkS (sh (w_st w)) (Some (eid e)) false false None (scur (w_st w)) (stok (w_st w))).
+      * set (st1 := mkS (sh (w_st w)) (eid e) false false None (scur (w_st w)) (stok (w_st w))).
         assert (Ew : exec_step w (SIter false false) =
-                     mkWorld (w_hist w) (w_ntrim w) st1 (w_deliv w) (w_outs w ++ [Continue]) (w_jumped w)).
-        { simpl. unfold next_iter. rewrite E, C, D, Pe', S. reflexivity. }
+                     mkWorld (w_hist w) (w_ntrim w) (w_trimmed w) st1 (w_deliv w) (w_outs w ++ [Continue])).
+        { simpl. unfold next_iter. rewrite E, C, D, NL, Pe, S. reflexivity. }
         rewrite Ew.
-        assert (I' : inv h pre (mkWorld (w_hist w) (w_ntrim w) st1 (w_deliv w) (w_outs w ++ [Continue]) (w_jumped w))
+        assert (I' : inv h pre (mkWorld (w_hist w) (w_ntrim w) (w_trimmed w) st1 (w_deliv w) (w_outs w ++ [Continue]))
                          (mid ++ [e]) t).
         { apply (inv_progress h pre w mid e t st1 false); auto.
           rewrite <- Hh; exact S. }
-        destruct (IH h pre _ (mid ++ [e]) t I' J Hnt eq_refl (or_introl eq_refl)) as [G1 G2]; [simpl in L; lia|].
+        destruct (IH h pre _ (mid ++ [e]) t I' Hnt eq_refl (or_introl eq_refl)) as [G1 G2]; [simpl in L; lia|].
         split; [exact G1|exact G2].
 Qed.
 
-(* If no trim removed events while the stream had no reference event, and the
-   reference event itself is still retained, then repeated TryNext delivers
-   EVERY in-scope event committed after the start position (up to the event
-   that invalidates the stream) — for every interleaving before. *)
-Theorem delivery_complete_partial : forall h pre w0 post0 script,
-  inv h pre w0 [] post0 -> script_ok (w_hist w0) script ->
+(* For every stream and every interleaving: if retention has not removed an
+   event the stream has not passed yet (removing events BEHIND it, its
+   reference event included, is harmless) and the stream has not been closed,
+   repeated TryNext delivers EVERY in-scope event above the start position, up
+   to the event that invalidates the stream. *)
+Theorem delivery_complete : forall h z w0 post0 script,
+  sinv h z w0 [] post0 -> script_ok (w_hist w0) script ->
   let w := exec w0 script in
-  w_jumped w = false -> anchor_retained w ->
+  (w_ntrim w <= position w)%nat ->
   serror (w_st w) = None -> (sclosed (w_st w) = false \/ sdropped (w_st w) = true) ->
-  forall n, length (w_hist w) <= n ->
-  w_deliv (drain n w) = expected h (skipn (length pre) (w_hist w)) /\ w_hist (drain n w) = w_hist w.
+  forall n, (length (w_hist w) <= n)%nat ->
+  w_deliv (drain n w) = expected h (after z (w_hist w)) /\ w_hist (drain n w) = w_hist w.
 Proof.
-  intros h pre w0 post0 script I0 Hok w J A E C n L.
-  destruct (exec_inv script h pre w0 [] post0 I0 Hok) as (mid & post & I). fold w in I.
-  rewrite (inv_after _ _ _ _ _ I).
-  apply (drain_complete n h pre w mid post); auto.
-  - unfold anchor_retained in A. rewrite (inv_position _ _ _ _ _ I) in A. exact A.
+  intros h z w0 post0 script I0 Hok w A E C n L.
+  destruct (sexec_inv script h z w0 [] post0 I0 Hok) as (mid & post & SI). fold w in SI.
+  rewrite (sinv_after _ _ _ _ _ SI). destruct SI as (I & _ & _).
+  apply (drain_complete n h _ w mid post I); auto.
+  - rewrite <- (inv_position _ _ _ _ _ I). exact A.
   - rewrite (i_hist _ _ _ _ _ I), !app_length in L. lia.
 Qed.
 
 (* ---- Watch: every stream it returns starts in the invariant ---- *)
 
 Definition world0 (hist : list event) (ntrim : nat) (st : sstate) : world :=
-  mkWorld hist ntrim st [] [] false.
+  mkWorld hist ntrim (trimmed_of hist ntrim) st [] [].
 
-Definition opt_in (o : option Z) (L : list Z) : Prop :=
-  match o with None => True | Some i => In i L end.
-
-Lemma last_event_in : forall l e, last_event l = Some e -> In e l.
+Lemma sinv_initial : forall h hist ntrim st,
+  increasing ts_zero hist -> (ntrim <= length hist)%nat -> sh st = h -> sdropped st = false ->
+  ts_zero <= slast st ->
+  sinv h (slast st) (world0 hist ntrim st) [] (after (slast st) hist).
 Proof.
-  induction l as [|x t IH]; simpl; intros e H; [discriminate|].
-  destruct t as [|y t']; [inversion H; auto|]. right; apply IH; exact H.
-Qed.
-
-Lemma last_event_snoc : forall a e, last_event (a ++ [e]) = Some e.
-Proof.
-  induction a as [|x t IH]; intros e; [reflexivity|].
-  simpl. destruct (t ++ [e]) eqn:E; [destruct t; discriminate|]. rewrite <- E. apply IH.
+  intros h hist ntrim st Hinc Hn Hh Hd Hlo. split; [|split; [reflexivity|exact Hlo]].
+  constructor; simpl; auto.
+  - apply before_after.
+  - intros x Hx. rewrite app_nil_r in Hx. eapply before_le; exact Hx.
+  - eapply after_increasing; exact Hinc.
+  - constructor.
+  - intros rest. rewrite Hd. reflexivity.
 Qed.
 
 Lemma find_event_in : forall id l e, find_event id l = Some e -> In e l /\ eid e = id.
@@ -846,218 +969,176 @@ Proof.
   - destruct (IH _ H); auto.
 Qed.
 
-Lemma start_at_in : forall z l prev dflt L,
-  opt_in prev L -> opt_in dflt L -> (forall x, In x l -> In (eid x) L) ->
-  opt_in (start_at z prev l dflt) L.
+Lemma find_event_app : forall id a e b,
+  ~ In id (ids a) -> eid e = id -> find_event id (a ++ e :: b) = Some e.
 Proof.
-  induction l as [|e t IH]; simpl; intros prev dflt L Hp Hd Hl; [exact Hd|].
-  destruct (Z.leb z (eid e)); [exact Hp|].
-  apply IH; simpl; auto.
+  induction a as [|x t IH]; simpl; intros e b H E.
+  - rewrite E, Z.eqb_refl; reflexivity.
+  - destruct (Z.eqb_spec (eid x) id) as [E'|E'].
+    + exfalso; apply H; left; exact E'.
+    + apply IH; [intros C; apply H; right; exact C|exact E].
 Qed.
 
-Lemma resolve_token_in : forall t l cur r, resolve_token t l cur = Some r ->
-  opt_in cur (ids l) -> opt_in r (ids l).
+Lemma resolve_token_lo : forall t l cur r lo, resolve_token t l cur = Some r ->
+  increasing lo l -> lo <= cur -> lo <= r.
 Proof.
-  intros [[id|]|] l cur r; simpl.
+  intros [[id|]|] l cur r lo; simpl.
   - destruct (find_event id l) as [e|] eqn:F; [|discriminate].
-    intros H _; inversion H; subst; simpl. apply find_event_in in F. destruct F as [F _].
-    unfold ids; apply in_map; exact F.
+    intros H Hinc _; inversion H; subst. apply find_event_in in F. destruct F as [F _].
+    pose proof (increasing_gt _ _ _ Hinc F). lia.
   - discriminate.
-  - intros H; inversion H; subst; auto.
+  - intros H _ L; inversion H; subst; exact L.
 Qed.
 
-Lemma watch_shape : forall h o log st, watch h o log = Some st ->
-  st = mkS h (slast st) false false None None None /\ opt_in (slast st) (ids log).
+(* start times are timestamps: not below the zero timestamp *)
+Definition at_ok (o : wopts) : Prop := match w_at o with Some z => 0 <= z | None => True end.
+
+Lemma log_increasing : forall hist n, increasing ts_zero hist -> increasing (trimmed_of hist n) (skipn n hist).
 Proof.
-  intros h o log st; unfold watch.
-  assert (H0 : opt_in (option_map eid (last_event log)) (ids log)).
-  { destruct (last_event log) as [e|] eqn:L; simpl; [|exact Logic.I].
-    unfold ids; apply in_map. apply last_event_in; exact L. }
-  destruct (resolve_token (w_resume o) log _) as [l1|] eqn:R1; [|discriminate].
-  pose proof (resolve_token_in _ _ _ _ R1 H0) as H1.
-  destruct (resolve_token (w_after o) log l1) as [l2|] eqn:R2; [|discriminate].
-  pose proof (resolve_token_in _ _ _ _ R2 H1) as H2.
-  intros H; inversion H; subst; simpl. split; [reflexivity|].
-  destruct (w_at o) as [z|]; [|exact H2].
-  apply start_at_in; simpl; auto. intros x Hx; unfold ids; apply in_map; exact Hx.
+  intros hist n H. rewrite <- (firstn_skipn n hist) in H. apply increasing_app in H. exact (proj2 H).
 Qed.
 
-Lemma inv_initial : forall h hist ntrim st a b,
-  NoDup (ids hist) -> ntrim <= length hist -> sh st = h -> sdropped st = false ->
-  hist = a ++ b ->
-  (match slast st with
-   | None => ntrim = length a
-   | Some id => exists A e, a = A ++ [e] /\ eid e = id
-   end) ->
-  inv h a (world0 hist ntrim st) [] b.
+Lemma trimmed_of_lo : forall hist n, increasing ts_zero hist -> ts_zero <= trimmed_of hist n.
 Proof.
-  intros h hist ntrim st a b ND Hn Hh Hd Hs Ha.
-  constructor; simpl; auto.
-  - rewrite app_nil_r. exact Ha.
-  - constructor.
-  - intros _ rest. rewrite Hd. reflexivity.
+  intros hist n H. rewrite <- (firstn_skipn n hist) in H. apply increasing_app in H.
+  apply increasing_last_id. exact (proj1 H).
 Qed.
 
 (* Every stream Engine.Watch returns — from now, resumeAfter, startAfter,
-   startAtOperationTime or any combination — starts in the invariant: all the
-   theorems of this part apply to it. *)
+   startAtOperationTime or any combination — starts in the invariant, at the
+   start position z = its s.last: all the theorems of this part apply to it. *)
 Theorem watch_inv : forall h o hist ntrim st,
-  NoDup (ids hist) -> ntrim <= length hist ->
-  watch h o (skipn ntrim hist) = Some st ->
-  exists pre post, inv h pre (world0 hist ntrim st) [] post /\ live st /\ sdropped st = false.
+  increasing ts_zero hist -> (ntrim <= length hist)%nat -> at_ok o ->
+  watch h o (skipn ntrim hist) (trimmed_of hist ntrim) = Some st ->
+  sinv h (slast st) (world0 hist ntrim st) [] (after (slast st) hist) /\ live st /\ sdropped st = false.
 Proof.
-  intros h o hist ntrim st ND Hn W.
-  destruct (watch_shape _ _ _ _ W) as [Est Hin].
-  assert (Hh : sh st = h) by (rewrite Est; reflexivity).
-  assert (Hd : sdropped st = false) by (rewrite Est; reflexivity).
-  assert (Hl : live st) by (rewrite Est; split; reflexivity).
-  destruct (slast st) as [id|] eqn:L.
-  - simpl in Hin. unfold ids in Hin. apply in_map_iff in Hin. destruct Hin as (e & He & Hine).
-    apply in_split in Hine. destruct Hine as (a & b & Hab).
-    exists (firstn ntrim hist ++ a ++ [e]), b. split; [|auto].
-    apply inv_initial; auto.
-    + rewrite <- (firstn_skipn ntrim hist) at 1. rewrite Hab, <- !app_assoc. reflexivity.
-    + rewrite L. exists (firstn ntrim hist ++ a), e. rewrite <- app_assoc. auto.
-  - exists (firstn ntrim hist), (skipn ntrim hist). split; [|auto].
-    apply inv_initial; auto.
-    + symmetry; apply firstn_skipn.
-    + rewrite L. rewrite firstn_length_le; auto.
+  intros h o hist ntrim st Hinc Hn Hat W. unfold watch in W.
+  pose proof (log_increasing hist ntrim Hinc) as Hlog.
+  pose proof (trimmed_of_lo hist ntrim Hinc) as Htr.
+  set (tr := trimmed_of hist ntrim) in *. set (log := skipn ntrim hist) in *.
+  assert (H0 : tr <= match last_event log with Some e => eid e | None => tr end).
+  { exact (increasing_last_id _ _ Hlog). }
+  destruct (resolve_token (w_resume o) log _) as [l1|] eqn:R1; [|discriminate].
+  pose proof (resolve_token_lo _ _ _ _ _ R1 Hlog H0) as H1.
+  destruct (resolve_token (w_after o) log l1) as [l2|] eqn:R2; [|discriminate].
+  pose proof (resolve_token_lo _ _ _ _ _ R2 Hlog H1) as H2.
+  inversion W; subst st; clear W. simpl.
+  split; [|split; [split; reflexivity|reflexivity]].
+  apply (sinv_initial h hist ntrim (mkS h _ false false None None None)); auto. simpl.
+  unfold at_ok in Hat. unfold ts_zero in *. destruct (w_at o) as [z|]; lia.
 Qed.
 
-(* where the three start modes put the stream *)
-
-(* now: after everything committed so far *)
-Lemma watch_now_start : forall h hist ntrim, NoDup (ids hist) -> ntrim <= length hist ->
-  exists st, watch h watch_now (skipn ntrim hist) = Some st /\
-             inv h hist (world0 hist ntrim st) [] [] /\
-             (slast st = None <-> ntrim = length hist).
+Lemma after_last_id : forall l lo, increasing lo l -> after (last_id lo l) l = [].
 Proof.
-  intros h hist ntrim ND Hn.
-  destruct (skipn ntrim hist) as [|x t] eqn:S.
-  - eexists; split; [reflexivity|]. simpl.
-    assert (E : ntrim = length hist).
-    { pose proof (skipn_length ntrim hist) as Hl. rewrite S in Hl. simpl in Hl. lia. }
-    split; [|tauto]. apply inv_initial; simpl; auto.
-    + rewrite app_nil_r; reflexivity.
-  - assert (Hne : x :: t <> []) by discriminate.
-    destruct (exists_last Hne) as (a & e & Hae).
-    exists (mkS h (Some (eid e)) false false None None None). split.
-    + unfold watch, watch_now; simpl w_resume; simpl w_after; simpl w_at. rewrite Hae, last_event_snoc. reflexivity.
-    + split.
-      * apply inv_initial; simpl; auto; [rewrite app_nil_r; reflexivity|].
-        exists (firstn ntrim hist ++ a), e. split; [|reflexivity].
-        rewrite <- (firstn_skipn ntrim hist) at 1. rewrite S, Hae, <- app_assoc. reflexivity.
-      * simpl. split; [discriminate|]. intros E. rewrite E, skipn_all in S. discriminate.
+  intros l lo H. rewrite <- (app_nil_r l) at 2. rewrite after_app_le; [reflexivity|].
+  intros x Hx. apply increasing_le_last; assumption.
+Qed.
+
+(* now: after everything committed so far (also on an empty oplog, where the
+   position is Catalog.Trimmed) *)
+Lemma watch_now_start : forall h hist ntrim, increasing ts_zero hist -> (ntrim <= length hist)%nat ->
+  exists st, watch h watch_now (skipn ntrim hist) (trimmed_of hist ntrim) = Some st /\
+             after (slast st) hist = [].
+Proof.
+  intros h hist ntrim Hinc Hn. eexists; split; [reflexivity|]. simpl.
+  change (match last_event (skipn ntrim hist) with Some e => eid e | None => trimmed_of hist ntrim end)
+    with (last_id (trimmed_of hist ntrim) (skipn ntrim hist)).
+  unfold trimmed_of. rewrite <- last_id_app, firstn_skipn. apply after_last_id; exact Hinc.
 Qed.
 
 (* resumeAfter / startAfter with the token of a retained event e: right after e *)
-Lemma watch_resume_start : forall h hist ntrim A e B (after : bool),
-  NoDup (ids hist) -> ntrim <= length A -> hist = A ++ e :: B ->
-  let o := if after then mkW None (Some (TokEvent (eid e))) None else mkW (Some (TokEvent (eid e))) None None in
-  exists st, watch h o (skipn ntrim hist) = Some st /\ slast st = Some (eid e) /\
-             inv h (A ++ [e]) (world0 hist ntrim st) [] B.
+Lemma watch_resume_start : forall h hist ntrim A e B (after_opt : bool),
+  increasing ts_zero hist -> (ntrim <= length A)%nat -> hist = A ++ e :: B ->
+  let o := if after_opt then mkW None (Some (TokEvent (eid e))) None else mkW (Some (TokEvent (eid e))) None None in
+  exists st, watch h o (skipn ntrim hist) (trimmed_of hist ntrim) = Some st /\ slast st = eid e /\
+             after (slast st) hist = B.
 Proof.
-  intros h hist ntrim A e B after ND Hn Hh o.
+  intros h hist ntrim A e B after_opt Hinc Hn Hh o.
   assert (F : find_event (eid e) (skipn ntrim hist) = Some e).
-  { rewrite Hh, skipn_app. replace (ntrim - length A) with 0 by lia. simpl.
+  { rewrite Hh, skipn_app. replace (ntrim - length A)%nat with 0%nat by lia. simpl.
     apply find_event_app; [|reflexivity].
-    rewrite Hh, ids_app in ND. simpl in ND. intros C.
+    pose proof (increasing_NoDup _ _ Hinc) as ND. rewrite Hh, ids_app in ND. simpl in ND. intros C.
     assert (C' : In (eid e) (ids A)).
     { unfold ids in *. apply in_map_iff in C. destruct C as (x & Hx & Hin).
       apply in_map_iff. exists x; split; [exact Hx|eapply in_skipn; exact Hin]. }
-    eapply (NoDup_app_disj _ _ _ _ ND C'). left; reflexivity. }
-  exists (mkS h (Some (eid e)) false false None None None).
+    clear -ND C'. induction (ids A) as [|y t IH]; [contradiction|].
+    simpl in ND. inversion ND as [|? ? Hn Hd]; subst. destruct C' as [->|C'].
+    - apply Hn. apply in_or_app. right; left; reflexivity.
+    - apply IH; assumption. }
+  exists (mkS h (eid e) false false None None None).
   split; [|split; [reflexivity|]].
-  - subst o; destruct after; unfold watch; simpl; rewrite F; reflexivity.
-  - apply inv_initial; simpl; auto.
-    + rewrite Hh, app_length; simpl; lia.
-    + rewrite Hh, <- app_assoc. reflexivity.
-    + exists A, e. auto.
+  - subst o; destruct after_opt; unfold watch; simpl; rewrite F; reflexivity.
+  - simpl. rewrite Hh in *. replace (A ++ e :: B) with ((A ++ [e]) ++ B) in * by (rewrite <- app_assoc; reflexivity).
+    apply increasing_app in Hinc. destruct Hinc as [H1 H2].
+    rewrite after_app_le.
+    + rewrite last_id_app in H2. unfold last_id at 1 in H2. simpl in H2. apply after_gt; exact H2.
+    + intros x Hx. pose proof (increasing_le_last _ _ _ H1 Hx) as L.
+      rewrite last_id_app in L. unfold last_id at 1 in L. simpl in L. exact L.
 Qed.
 
-Lemma start_at_skip : forall z a e b prev dflt,
-  (forall x, In x a -> (eid x < z)%Z) -> (z <= eid e)%Z ->
-  start_at z prev (a ++ e :: b) dflt = fold_left (fun _ x => Some (eid x)) a prev.
+(* startAtOperationTime z: exactly the events with an id at or after z are
+   ahead — also those retention has already removed: the stream then reports
+   the loss (lost_is_reported) *)
+Lemma watch_at_start : forall h hist ntrim z, increasing ts_zero hist ->
+  exists st, watch h (mkW None None (Some z)) (skipn ntrim hist) (trimmed_of hist ntrim) = Some st /\
+             slast st = z - 1 /\
+             after (slast st) hist = filter (fun e => Z.leb z (eid e)) hist.
 Proof.
-  induction a as [|x t IH]; simpl; intros e b prev dflt Ha He.
-  - destruct (Z.leb_spec z (eid e)); [reflexivity|lia].
-  - destruct (Z.leb_spec z (eid x)); [specialize (Ha x (or_introl eq_refl)); lia|].
-    apply IH; auto.
-Qed.
-
-(* startAtOperationTime z: right before the first retained event at or after z;
-   when that is the first retained event the stream has no reference event *)
-Lemma watch_at_start : forall h hist ntrim z a e b,
-  NoDup (ids hist) -> ntrim <= length hist -> skipn ntrim hist = a ++ e :: b ->
-  (forall x, In x a -> (eid x < z)%Z) -> (z <= eid e)%Z ->
-  exists st, watch h (mkW None None (Some z)) (skipn ntrim hist) = Some st /\
-             inv h (firstn ntrim hist ++ a) (world0 hist ntrim st) [] (e :: b) /\
-             (slast st = None <-> a = []).
-Proof.
-  intros h hist ntrim z a e b ND Hn S Ha He.
-  exists (mkS h (fold_left (fun _ x => Some (eid x)) a None) false false None None None).
-  split; [|split].
-  - unfold watch; simpl. rewrite S, start_at_skip; auto.
-  - apply inv_initial; simpl; auto.
-    + rewrite <- (firstn_skipn ntrim hist) at 1. rewrite S, <- app_assoc. reflexivity.
-    + destruct a as [|x t] using rev_ind; simpl.
-      * rewrite app_nil_r. rewrite firstn_length_le; auto.
-      * rewrite fold_left_app. simpl. exists (firstn ntrim hist ++ t), x. rewrite app_assoc. auto.
-  - simpl. destruct a as [|x t] using rev_ind; simpl; [tauto|].
-    rewrite fold_left_app; simpl. split; [discriminate|]. intros C; destruct t; discriminate.
+  intros h hist ntrim z Hinc. eexists; split; [reflexivity|]. split; [reflexivity|]. simpl.
+  rewrite (after_filter _ _ _ Hinc). apply filter_ext. intros e.
+  destruct (Z.ltb_spec (z - 1) (eid e)), (Z.leb_spec z (eid e)); try reflexivity; lia.
 Qed.
 
 (* ---- resume ---- *)
 
-Lemma token_after_event : forall b c s log s' e,
-  next_iter b c s log = (s', Return (Event e)) -> stok s' = Some (TokEvent (eid e)).
+Lemma token_after_event : forall b c s log tr s' e,
+  next_iter b c s log tr = (s', Return (Event e)) -> stok s' = Some (TokEvent (eid e)).
 Proof.
-  intros b c s log s' e; unfold next_iter.
+  intros b c s log tr s' e; unfold next_iter.
   destruct (is_some (serror s) || sclosed s); [discriminate|].
   destruct (sdropped s); [discriminate|].
-  destruct (pending s log) as [[|x t]|]; try discriminate.
+  destruct (Z.ltb (slast s) tr); [discriminate|].
+  destruct (pending s log) as [|x t]; try discriminate.
   - destruct b; [discriminate|]. destruct c; discriminate.
   - destruct (in_scope (sh s) x); [|discriminate]. intros H; inversion H; subst; reflexivity.
 Qed.
 
 (* Watch with resumeAfter = the token of an event e that a stream has delivered
    (any earlier interleaving) and that is still retained: the new stream — of
-   any scope — is positioned right after e and holds e as reference event, so
-   delivery_anchored / delivery_complete_partial / lost_is_reported_partial
-   apply to it with "after" = the events committed after e: it continues with
-   the next event. *)
-Theorem resume_continues : forall h h' pre w0 post0 script e,
-  inv h pre w0 [] post0 -> script_ok (w_hist w0) script ->
+   any scope — starts right after e: the events ahead of it are exactly those
+   committed after e, and delivery / delivery_complete / lost_is_reported apply
+   to it with start position eid e: it continues with the next event. *)
+Theorem resume_continues : forall h h' z w0 post0 script e,
+  sinv h z w0 [] post0 -> script_ok (w_hist w0) script ->
   let w := exec w0 script in
   In e (w_deliv w) -> In e (w_log w) ->
   exists st' A B,
     w_hist w = A ++ e :: B /\
-    watch h' (mkW (Some (TokEvent (eid e))) None None) (w_log w) = Some st' /\
-    slast st' = Some (eid e) /\
-    inv h' (A ++ [e]) (world0 (w_hist w) (w_ntrim w) st') [] B.
+    watch h' (mkW (Some (TokEvent (eid e))) None None) (w_log w) (w_trimmed w) = Some st' /\
+    slast st' = eid e /\ after (eid e) (w_hist w) = B /\
+    sinv h' (eid e) (world0 (w_hist w) (w_ntrim w) st') [] B.
 Proof.
-  intros h h' pre w0 post0 script e I0 Hok w _ Hlog.
-  destruct (exec_inv script h pre w0 [] post0 I0 Hok) as (mid & post & I). fold w in I.
+  intros h h' z w0 post0 script e I0 Hok w _ Hlog.
+  destruct (sexec_inv script h z w0 [] post0 I0 Hok) as (mid & post & I & _). fold w in I.
   unfold w_log in Hlog. apply in_split in Hlog. destruct Hlog as (a & b & Hab).
   assert (Hh : w_hist w = (firstn (w_ntrim w) (w_hist w) ++ a) ++ e :: b).
   { rewrite <- (firstn_skipn (w_ntrim w) (w_hist w)) at 1. rewrite Hab, <- app_assoc. reflexivity. }
   destruct (watch_resume_start h' (w_hist w) (w_ntrim w) (firstn (w_ntrim w) (w_hist w) ++ a) e b false
-              (i_nodup _ _ _ _ _ I)) as (st' & W & L & I'); [|exact Hh|].
+              (i_inc _ _ _ _ _ I)) as (st' & W & L & Af); [|exact Hh|].
   { rewrite app_length, firstn_length_le; [lia|exact (i_ntrim _ _ _ _ _ I)]. }
-  exists st', (firstn (w_ntrim w) (w_hist w) ++ a), b. auto.
-Qed.
-
-(* ... and therefore: whatever happens next, what the resumed stream returns
-   is a gap-free prefix of the in-scope events committed after e *)
-Corollary resume_continues_delivery : forall h' hist ntrim st' A e B script,
-  inv h' (A ++ [e]) (world0 hist ntrim st') [] B -> slast st' = Some (eid e) ->
-  script_ok hist script ->
-  let w := exec (world0 hist ntrim st') script in
-  prefix (w_deliv w) (expected h' (skipn (length (A ++ [e])) (w_hist w))).
-Proof.
-  intros h' hist ntrim st' A e B script I L Hok w.
-  apply (delivery_anchored h' (A ++ [e]) (world0 hist ntrim st') B script); auto.
-  simpl. rewrite L. discriminate.
+  exists st', (firstn (w_ntrim w) (w_hist w) ++ a), b.
+  rewrite (i_trimmed _ _ _ _ _ I). unfold w_log. rewrite L in Af.
+  split; [exact Hh|]. split; [exact W|]. split; [exact L|]. split; [exact Af|].
+  pose proof (increasing_gt _ _ e (i_inc _ _ _ _ _ I)) as Hgt.
+  assert (Hin : In e (w_hist w)) by (rewrite Hh; apply in_or_app; right; left; reflexivity).
+  specialize (Hgt Hin).
+  assert (Est : st' = mkS h' (eid e) false false None None None).
+  { unfold watch in W. simpl in W.
+    destruct (find_event (eid e) (skipn (w_ntrim w) (w_hist w))) as [x|] eqn:F; [|discriminate].
+    apply find_event_in in F. destruct F as [_ F]. inversion W. rewrite F. reflexivity. }
+  rewrite <- Af, <- L.
+  apply sinv_initial; try (rewrite Est; reflexivity); [exact (i_inc _ _ _ _ _ I)|exact (i_ntrim _ _ _ _ _ I)|].
+  rewrite L. lia.
 Qed.
 
 (* ---- invalidate ---- *)
@@ -1066,134 +1147,49 @@ Qed.
    drops_db: the drop of its collection or the dropDatabase of its database)
    the next call returns the invalidate event and closes the stream; every
    later call returns Closed. *)
-Theorem invalidate_after_drop : forall b c s log s' e,
-  next_iter b c s log = (s', Return (Event e)) -> drops (sh s) e = true ->
-  forall b' c' log',
-  exists s'', next_iter b' c' s' log' = (s'', Return Invalidate) /\
+Theorem invalidate_after_drop : forall b c s log tr s' e,
+  next_iter b c s log tr = (s', Return (Event e)) -> drops (sh s) e = true ->
+  forall b' c' log' tr',
+  exists s'', next_iter b' c' s' log' tr' = (s'', Return Invalidate) /\
               sclosed s'' = true /\ stok s'' = Some TokInvalidate /\
-              forall b'' c'' log'', next_iter b'' c'' s'' log'' = (s'', Return Closed).
+              forall b'' c'' log'' tr'', next_iter b'' c'' s'' log'' tr'' = (s'', Return Closed).
 Proof.
-  intros b c s log s' e H D b' c' log'. unfold next_iter in H.
+  intros b c s log tr s' e H D b' c' log' tr'. unfold next_iter in H.
   destruct (is_some (serror s) || sclosed s) eqn:V; [discriminate|].
   destruct (sdropped s) eqn:Dr; [discriminate|].
-  destruct (pending s log) as [[|x t]|]; try discriminate.
+  destruct (Z.ltb (slast s) tr); [discriminate|].
+  destruct (pending s log) as [|x t]; try discriminate.
   - destruct b; [discriminate|]. destruct c; discriminate.
   - destruct (in_scope (sh s) x); [|discriminate]. inversion H; subst; clear H.
     eexists. split; [|split; [|split]].
     + unfold next_iter; simpl. rewrite V, D. simpl. reflexivity.
     + reflexivity.
     + reflexivity.
-    + intros b'' c'' log''. unfold next_iter; simpl. rewrite orb_true_r. reflexivity.
+    + intros b'' c'' log'' tr''. unfold next_iter; simpl. rewrite orb_true_r. reflexivity.
 Qed.
 
-(* the invalidate event comes only after such a drop: a stream that has not
-   delivered a dropping event never returns Invalidate *)
-Lemma invalidate_only_after_drop : forall b c s log s',
-  next_iter b c s log = (s', Return Invalidate) -> sdropped s = true.
+(* the invalidate event comes only after such a drop *)
+Lemma invalidate_only_after_drop : forall b c s log tr s',
+  next_iter b c s log tr = (s', Return Invalidate) -> sdropped s = true.
 Proof.
-  intros b c s log s'; unfold next_iter.
+  intros b c s log tr s'; unfold next_iter.
   destruct (is_some (serror s) || sclosed s); [discriminate|].
   destruct (sdropped s); [reflexivity|].
-  destruct (pending s log) as [[|x t]|]; try discriminate.
+  destruct (Z.ltb (slast s) tr); [discriminate|].
+  destruct (pending s log) as [|x t]; try discriminate.
   - destruct b; [discriminate|]. destruct c; discriminate.
   - destruct (in_scope (sh s) x); discriminate.
 Qed.
 
-(* ---- the two places where the faithful model of the CURRENT code fails the
-        full statements: witnesses (findings), by computation ---- *)
-
-Definition ev0 : event := mkEvent 0 "d" "c" OpInsert.
-Definition ev1 : event := mkEvent 1 "d" "c" OpInsert.
-Definition hcoll : handle := ("d"%string, "c"%string).
-
-(* FULL STATEMENT (false of the current code):
-     forall streams and interleavings, if retention removed an event the
-     stream has not passed, the next pass reports Lost.
-   Witness 1: a stream opened on an EMPTY oplog (s.last = nil).  Two inserts
-   are committed, retention removes the first, TryNext returns the second:
-   event 0 is in scope, was committed after the start, is never delivered, and
-   no error is reported. *)
-Definition skip_script : list sstep :=
-  [SCommit [ev0; ev1]; STrim 1; SIter false false; SIter false false].
-
-Theorem lost_is_reported_refuted :
-  exists h st0 script,
-    watch h watch_now [] = Some st0 /\ script_ok [] script /\
-    let w := exec (world0 [] 0 st0) script in
-    (* an in-scope event committed after the start was discarded before delivery *)
-    (exists e, In e (w_hist w) /\ in_scope h e = true /\ ~ In e (w_deliv w) /\ ~ In e (w_log w)) /\
-    (* no pass reported Lost, the stream is alive and reports "nothing more" *)
-    ~ In (Return Lost) (w_outs w) /\ serror (w_st w) = None /\ sclosed (w_st w) = false /\
-    (* what it delivered skips that event: not a prefix of the expected sequence *)
-    w_deliv w = [ev1] /\ expected h (w_hist w) = [ev0; ev1] /\
-    ~ prefix (w_deliv w) (expected h (w_hist w)).
-Proof.
-  exists hcoll, (mkS hcoll None false false None None None), skip_script.
-  split; [reflexivity|]. split.
-  - simpl. split; [|exact Logic.I]. repeat constructor; simpl; intuition discriminate.
-  - vm_compute. repeat split.
-    + exists ev0. repeat split; [left; reflexivity| |]; unfold ev0, ev1; intuition discriminate.
-    + intuition discriminate.
-    + intros [c H]. discriminate.
-Qed.
-
-(* Witness 2: startAtOperationTime at (or before) the first retained event also
-   leaves s.last = nil *)
-Theorem lost_is_reported_refuted_start_at :
-  exists h st0 script,
-    watch h (mkW None None (Some 0%Z)) [ev0; ev1] = Some st0 /\ slast st0 = None /\
-    let w := exec (world0 [ev0; ev1] 0 st0) script in
-    script_ok [ev0; ev1] script /\
-    ~ In (Return Lost) (w_outs w) /\ w_deliv w = [ev1] /\
-    ~ prefix (w_deliv w) (expected h (w_hist w)).
-Proof.
-  exists hcoll, (mkS hcoll None false false None None None), [STrim 1; SIter false false; SIter false false].
-  split; [reflexivity|]. split; [reflexivity|]. vm_compute. repeat split.
-  - intuition discriminate.
-  - intros [c H]. discriminate.
-Qed.
-
-(* FULL STATEMENT (false of the current code):
-     if no trim removed an event the stream has not passed (position <= ntrim is
-     allowed to be an equality: only passed events were removed), repeated
-     TryNext delivers every in-scope event after the start.
-   Witness: the stream's reference event (already behind it) is removed while
-   the next event is retained: Lost although nothing undelivered was discarded. *)
-Theorem delivery_complete_refuted :
-  exists h st0 script,
-    watch h watch_now [ev0] = Some st0 /\ script_ok [ev0] script /\
-    let w := exec (world0 [ev0] 0 st0) script in
-    w_jumped w = false /\
-    w_ntrim w <= position w /\                       (* nothing beyond the stream's position was removed *)
-    In ev1 (w_log w) /\ in_scope h ev1 = true /\      (* the undelivered event is retained *)
-    (forall n, w_deliv (drain (S n) w) = []) /\       (* yet it is never delivered *)
-    expected h (skipn 1 (w_hist w)) = [ev1] /\
-    snd (next_iter false false (w_st w) (w_log w)) = Return Lost.
-Proof.
-  exists hcoll, (mkS hcoll (Some 0%Z) false false None None None), [SCommit [ev1]; STrim 1].
-  split; [reflexivity|]. split.
-  - simpl. split; [|exact Logic.I]. repeat constructor; simpl; intuition discriminate.
-  - cbv zeta.
-    split; [reflexivity|]. split; [vm_compute; lia|]. split; [vm_compute; auto|].
-    split; [reflexivity|]. split; [|split; reflexivity].
-    intros n. rewrite drain_S.
-    set (w1 := exec_step _ (SIter false false)).
-    assert (H : w_deliv w1 = [] /\ sclosed (w_st w1) = true) by (vm_compute; auto).
-    destruct H as [H1 H2]. clearbody w1. revert w1 H1 H2.
-    induction n as [|n IH]; intros w1 H1 H2; [exact H1|].
-    rewrite drain_S. apply IH.
-    + simpl. unfold next_iter. rewrite H2, orb_true_r. simpl. exact H1.
-    + simpl. unfold next_iter. rewrite H2, orb_true_r. simpl. exact H2.
-Qed.
-
 (* ================================================================== *)
 (* Part 3 — the concurrent model: no lost wake-up                      *)
+Local Open Scope nat_scope.
 
 Inductive reachable (s0 : cstate) : cstate -> Prop :=
 | reach_init : reachable s0 s0
 | reach_step : forall s l s', reachable s0 s -> cstep l s = Some s' -> reachable s0 s'.
 
-Definition initial (s : cstate) : Prop := exists log st writers, s = cinit log st writers.
+Definition initial (s : cstate) : Prop := exists log tr st writers, s = cinit log tr st writers.
 
 Definition consumer_waiting (s : cstate) : Prop := c_cons s = CParked.
 Definition signal_full (s : cstate) : Prop := c_sig s = true.
@@ -1204,12 +1200,14 @@ Definition committer_about_to_signal (s : cstate) : Prop :=
 Definition closer_about_to_signal (s : cstate) : Prop := c_closer s = KMarked.
 
 (* a fresh pass of the loop would park again: nothing to do *)
-Definition quiescent (s : cstate) : Prop := snd (next_iter true false (c_st s) (c_log s)) = Park.
+Definition quiescent (s : cstate) : Prop := snd (next_iter true false (c_st s) (c_log s) (c_trimmed s)) = Park.
 
-(* the stream is open and an event of its scope lies ahead of it in the oplog *)
+(* the stream is open, retention has not passed it, and an event of its scope
+   lies ahead of it in the oplog *)
 Definition undelivered_matching (s : cstate) : Prop :=
   sclosed (c_st s) = false /\
-  exists e p, pending (c_st s) (c_log s) = Some p /\ In e p /\ in_scope (sh (c_st s)) e = true.
+  Z.ltb (slast (c_st s)) (c_trimmed s) = false /\
+  exists e, In e (pending (c_st s) (c_log s)) /\ in_scope (sh (c_st s)) e = true.
 
 Record cinv (s : cstate) : Prop := mkCinv {
   k_reg : c_reg s = false -> sclosed (c_st s) = true;
@@ -1220,43 +1218,45 @@ Record cinv (s : cstate) : Prop := mkCinv {
            committer_about_to_signal s \/ closer_about_to_signal s
 }.
 
-Lemma next_iter_block_ctx : forall c s log, next_iter true c s log = next_iter true false s log.
+Lemma next_iter_block_ctx : forall c s log tr, next_iter true c s log tr = next_iter true false s log tr.
 Proof.
-  intros c s log; unfold next_iter.
+  intros c s log tr; unfold next_iter.
   destruct (is_some (serror s) || sclosed s); [reflexivity|].
   destruct (sdropped s); [reflexivity|].
-  destruct (pending s log) as [[|e t]|]; reflexivity.
+  destruct (Z.ltb (slast s) tr); [reflexivity|].
+  destruct (pending s log) as [|e t]; reflexivity.
 Qed.
 
-Lemma next_iter_park : forall b c s log s', next_iter b c s log = (s', Park) -> b = true /\ s' = s.
+Lemma next_iter_park : forall b c s log tr s', next_iter b c s log tr = (s', Park) -> b = true /\ s' = s.
 Proof.
-  intros b c s log s'; unfold next_iter.
+  intros b c s log tr s'; unfold next_iter.
   destruct (is_some (serror s) || sclosed s); [discriminate|].
   destruct (sdropped s); [discriminate|].
-  destruct (pending s log) as [[|e t]|]; try discriminate.
+  destruct (Z.ltb (slast s) tr); [discriminate|].
+  destruct (pending s log) as [|e t]; try discriminate.
   - destruct b; [intros H; inversion H; auto|]. destruct c; discriminate.
   - destruct (in_scope (sh s) e); discriminate.
 Qed.
 
-Lemma next_iter_closed_mono : forall b c s log, sclosed s = true -> sclosed (fst (next_iter b c s log)) = true.
+Lemma next_iter_closed_mono : forall b c s log tr, sclosed s = true -> sclosed (fst (next_iter b c s log tr)) = true.
 Proof.
-  intros b c s log H; unfold next_iter. rewrite H, orb_true_r. exact H.
+  intros b c s log tr H; unfold next_iter. rewrite H, orb_true_r. exact H.
 Qed.
 
-Lemma next_iter_closes : forall b c s log s' o, next_iter b c s log = (s', Return o) ->
+Lemma next_iter_closes : forall b c s log tr s' o, next_iter b c s log tr = (s', Return o) ->
   (o = Invalidate \/ o = Lost) -> sclosed s' = true.
 Proof.
-  intros b c s log s' o; unfold next_iter.
+  intros b c s log tr s' o; unfold next_iter.
   destruct (is_some (serror s) || sclosed s); [intros H [E|E]; inversion H; subst; discriminate|].
   destruct (sdropped s); [intros H _; inversion H; reflexivity|].
-  destruct (pending s log) as [[|e t]|].
+  destruct (Z.ltb (slast s) tr); [intros H _; inversion H; reflexivity|].
+  destruct (pending s log) as [|e t].
   - destruct b; [discriminate|]. destruct c; intros H [E|E]; inversion H; subst; discriminate.
   - destruct (in_scope (sh s) e); [|discriminate]. intros H [E|E]; inversion H; subst; discriminate.
-  - intros H _; inversion H; reflexivity.
 Qed.
 
-Lemma closed_not_quiescent : forall c s log, sclosed s = true -> snd (next_iter true c s log) <> Park.
-Proof. intros c s log H; unfold next_iter. rewrite H, orb_true_r. discriminate. Qed.
+Lemma closed_not_quiescent : forall c s log tr, sclosed s = true -> snd (next_iter true c s log tr) <> Park.
+Proof. intros c s log tr H; unfold next_iter. rewrite H, orb_true_r. discriminate. Qed.
 
 Lemma existsb_set_nth_published : forall ws i w, nth_error ws i = Some w ->
   existsb is_published (set_nth i WPublished ws) = true.
@@ -1276,7 +1276,7 @@ Qed.
 
 Lemma cinv_initial : forall s, initial s -> cinv s.
 Proof.
-  intros s (log & st & ws & ->). constructor; simpl; try discriminate.
+  intros s (log & tr & st & ws & ->). constructor; simpl; try discriminate.
 Qed.
 
 Lemma cinv_step : forall l s s', cinv s -> cstep l s = Some s' -> cinv s'.
@@ -1286,13 +1286,13 @@ Proof.
     destruct (c_cons s); inversion H; subst; clear H. constructor; simpl; auto; discriminate.
   - (* LCheck *)
     destruct (c_cons s) as [|b| |o] eqn:Ec; try discriminate.
-    destruct (next_iter b (c_ctx s) (c_st s) (c_log s)) as [st' [o| |]] eqn:N; inversion H; subst; clear H.
-    + pose proof (next_iter_closed_mono b (c_ctx s) (c_st s) (c_log s)) as M. rewrite N in M. simpl in M.
+    destruct (next_iter b (c_ctx s) (c_st s) (c_log s) (c_trimmed s)) as [st' [o| |]] eqn:N; inversion H; subst; clear H.
+    + pose proof (next_iter_closed_mono b (c_ctx s) (c_st s) (c_log s) (c_trimmed s)) as M. rewrite N in M. simpl in M.
       constructor; simpl; auto; try discriminate.
       destruct o; auto; intros _; eapply next_iter_closes; eauto.
-    + pose proof (next_iter_closed_mono b (c_ctx s) (c_st s) (c_log s)) as M. rewrite N in M. simpl in M.
+    + pose proof (next_iter_closed_mono b (c_ctx s) (c_st s) (c_log s) (c_trimmed s)) as M. rewrite N in M. simpl in M.
       constructor; simpl; auto; discriminate.
-    + destruct (next_iter_park _ _ _ _ _ N) as [-> ->].
+    + destruct (next_iter_park _ _ _ _ _ _ N) as [-> ->].
       constructor; simpl; auto. intros _. left. unfold quiescent; simpl.
       rewrite <- (next_iter_block_ctx (c_ctx s)), N. reflexivity.
   - (* LWake *)
@@ -1363,10 +1363,10 @@ Qed.
 
 Lemma matching_not_quiescent : forall s, undelivered_matching s -> ~ quiescent s.
 Proof.
-  intros s (_ & e & p & P & Hin & _) Q. unfold quiescent, next_iter in Q.
+  intros s (_ & NL & e & Hin & _) Q. unfold quiescent, next_iter in Q.
   destruct (is_some (serror (c_st s)) || sclosed (c_st s)); [discriminate|].
   destruct (sdropped (c_st s)); [discriminate|].
-  rewrite P in Q. destruct p as [|x t]; [contradiction|].
+  rewrite NL in Q. destruct (pending (c_st s) (c_log s)) as [|x t]; [contradiction|].
   destruct (in_scope (sh (c_st s)) x); discriminate.
 Qed.
 
@@ -1480,20 +1480,26 @@ Proof.
   simpl. rewrite W, Rg, orb_true_r. eexists; split; reflexivity.
 Qed.
 
-(* ================================================================== *)
-(* Part 4 — non-vacuity: concrete instances that meet the hypotheses   *)
 
+(* ================================================================== *)
+(* Part 4 — non-vacuity, and the two former defect witnesses repaired  *)
+
+Local Open Scope Z_scope.
+
+Definition ev0 : event := mkEvent 0 "d" "c" OpInsert.
+Definition ev1 : event := mkEvent 1 "d" "c" OpInsert.
 Definition ev2 : event := mkEvent 2 "d" "k" OpInsert.
 Definition ev3 : event := mkEvent 3 "d" "c" OpDrop.
 Definition ev4 : event := mkEvent 4 "d" "c" OpInsert.
-Definition st_after0 : sstate := mkS hcoll (Some 0%Z) false false None None None.
+Definition hcoll : handle := ("d"%string, "c"%string).
+Definition st_fresh : sstate := mkS hcoll ts_zero false false None None None.
+Definition st_after0 : sstate := mkS hcoll 0 false false None None None.
 Definition w_ex : world := world0 [ev0] 0 st_after0.
 
-Lemma ex_start : watch hcoll watch_now [ev0] = Some st_after0 /\ inv hcoll [ev0] w_ex [] [].
+Lemma ex_start : watch hcoll watch_now [ev0] ts_zero = Some st_after0 /\ sinv hcoll 0 w_ex [] [].
 Proof.
-  split; [reflexivity|]. apply inv_initial; simpl; auto.
-  - repeat constructor; simpl; intuition discriminate.
-  - exists [], ev0. auto.
+  split; [reflexivity|].
+  apply (sinv_initial hcoll [ev0] 0%nat st_after0); simpl; auto; unfold ts_zero; lia.
 Qed.
 
 Definition script_ex : list sstep :=
@@ -1501,61 +1507,100 @@ Definition script_ex : list sstep :=
    SIter false false; SIter false false; SIter false false].
 
 Lemma script_ex_ok : script_ok (w_hist w_ex) script_ex.
-Proof.
-  simpl. repeat split; repeat constructor; simpl; intuition discriminate.
-Qed.
+Proof. simpl. unfold ts_zero. repeat split; lia. Qed.
 
 (* delivery: a collection stream started after event 0 sees 1, skips 2 (other
    collection), delivers the drop 3, is invalidated and never delivers 4 *)
 Lemma ex_delivery :
   w_deliv (exec w_ex script_ex) = [ev1; ev3] /\
-  expected hcoll (skipn 1 (w_hist (exec w_ex script_ex))) = [ev1; ev3] /\
+  expected hcoll (after 0 (w_hist (exec w_ex script_ex))) = [ev1; ev3] /\
   w_outs (exec w_ex script_ex) =
-    [Return (Event ev1); Continue; Return (Event ev3); Return Invalidate; Return Closed; Return Closed] /\
-  w_jumped (exec w_ex script_ex) = false.
+    [Return (Event ev1); Continue; Return (Event ev3); Return Invalidate; Return Closed; Return Closed].
 Proof. vm_compute. auto. Qed.
 
-(* lost: the anchored stream falls behind retention *)
+(* lost: retention passes the stream *)
 Definition script_lost : list sstep := [SCommit [ev1; ev2]; STrim 2].
 Lemma ex_lost :
-  script_ok (w_hist w_ex) script_lost /\ slast (w_st w_ex) <> None /\
+  script_ok (w_hist w_ex) script_lost /\
   let w := exec w_ex script_lost in
-  live (w_st w) /\ sdropped (w_st w) = false /\ position w < w_ntrim w /\
-  snd (next_iter false false (w_st w) (w_log w)) = Return Lost.
+  live (w_st w) /\ sdropped (w_st w) = false /\ (position w < w_ntrim w)%nat /\
+  snd (next_iter false false (w_st w) (w_log w) (w_trimmed w)) = Return Lost.
 Proof.
-  split; [simpl; repeat split; repeat constructor; simpl; intuition discriminate|].
-  split; [discriminate|]. vm_compute. repeat split; auto.
-Qed.
-
-(* completeness: retention removed only events strictly behind the reference event *)
-Definition script_complete : list sstep := [SCommit [ev1; ev2]; SIter false false; STrim 1; SCommit [ev4]].
-Lemma ex_complete :
-  script_ok (w_hist w_ex) script_complete /\
-  let w := exec w_ex script_complete in
-  w_jumped w = false /\ anchor_retained w /\ serror (w_st w) = None /\ sclosed (w_st w) = false /\
-  w_deliv w = [ev1] /\ w_deliv (drain 4 w) = [ev1; ev4] /\
-  expected hcoll (skipn 1 (w_hist w)) = [ev1; ev4].
-Proof.
-  split; [simpl; repeat split; repeat constructor; simpl; intuition discriminate|].
+  split; [simpl; unfold ts_zero; repeat split; lia|].
   vm_compute. repeat split; auto.
 Qed.
 
-(* resume: a database stream resumed from the token of delivered event 1 *)
-Lemma ex_resume :
+(* completeness: retention removes the events BEHIND the stream, its reference
+   event (1) included; everything ahead is still delivered *)
+Definition script_complete : list sstep := [SCommit [ev1; ev2]; SIter false false; STrim 2; SCommit [ev4]].
+Lemma ex_complete :
+  script_ok (w_hist w_ex) script_complete /\
   let w := exec w_ex script_complete in
+  (w_ntrim w <= position w)%nat /\ serror (w_st w) = None /\ sclosed (w_st w) = false /\
+  w_ntrim w = 2%nat /\ w_trimmed w = 1 /\
+  w_deliv w = [ev1] /\ w_deliv (drain 4 w) = [ev1; ev4] /\
+  expected hcoll (after 0 (w_hist w)) = [ev1; ev4].
+Proof.
+  split; [simpl; unfold ts_zero; repeat split; lia|].
+  vm_compute. repeat split; auto.
+Qed.
+
+(* FORMER DEFECT 1 (C09:silent-skip-unanchored-stream), same script as the old
+   refutation witness: a stream opened on an EMPTY oplog, two inserts, retention
+   removes the first before the stream reads it.  Now: Lost, nothing skipped. *)
+Definition skip_script : list sstep :=
+  [SCommit [ev0; ev1]; STrim 1; SIter false false; SIter false false].
+
+Lemma lost_is_reported_repaired :
+  watch hcoll watch_now [] ts_zero = Some st_fresh /\ script_ok [] skip_script /\
+  let w := exec (world0 [] 0 st_fresh) skip_script in
+  w_outs w = [Return Lost; Return Closed] /\ w_deliv w = [] /\
+  serror (w_st w) = Some ELost /\ sclosed (w_st w) = true.
+Proof.
+  split; [reflexivity|]. split; [simpl; unfold ts_zero; repeat split; lia|].
+  vm_compute. auto.
+Qed.
+
+(* ... and startAtOperationTime at the first retained event *)
+Lemma lost_is_reported_repaired_start_at :
+  exists st0, watch hcoll (mkW None None (Some 0)) [ev0; ev1] ts_zero = Some st0 /\
+  let w := exec (world0 [ev0; ev1] 0 st0) [STrim 1; SIter false false] in
+  w_outs w = [Return Lost] /\ w_deliv w = [].
+Proof. eexists; split; [reflexivity|]. vm_compute. auto. Qed.
+
+(* FORMER DEFECT 2 (C09:spurious-lost-anchor-trimmed), same script as the old
+   refutation witness: the stream's reference event (0, behind it) is removed
+   while event 1 is retained.  Now: event 1 is delivered. *)
+Lemma delivery_complete_repaired :
+  watch hcoll watch_now [ev0] ts_zero = Some st_after0 /\
+  let w := exec w_ex [SCommit [ev1]; STrim 1] in
+  (w_ntrim w <= position w)%nat /\ In ev1 (w_log w) /\
+  snd (next_iter false false (w_st w) (w_log w) (w_trimmed w)) = Return (Event ev1) /\
+  w_deliv (drain 2 w) = [ev1] /\ expected hcoll (after 0 (w_hist w)) = [ev1].
+Proof.
+  split; [reflexivity|]. vm_compute. repeat split; auto.
+Qed.
+
+(* resume: a database stream resumed from the token of delivered event 1, which
+   is still retained (here: after a trim of event 0 only) *)
+Definition script_resume : list sstep := [SCommit [ev1; ev2]; SIter false false; STrim 1; SCommit [ev4]].
+Lemma ex_resume :
+  let w := exec w_ex script_resume in
   In ev1 (w_deliv w) /\ In ev1 (w_log w) /\
-  exists st', watch ("d"%string, ""%string) (mkW (Some (TokEvent 1%Z)) None None) (w_log w) = Some st' /\
-              snd (next st' (w_log w)) = Ok (Event ev2).
+  exists st', watch ("d"%string, ""%string) (mkW (Some (TokEvent 1)) None None) (w_log w) (w_trimmed w) = Some st' /\
+              snd (next st' (w_log w) (w_trimmed w)) = Ok (Event ev2).
 Proof. vm_compute. repeat split; auto. eexists; split; reflexivity. Qed.
 
 (* invalidate *)
 Lemma ex_invalidate :
-  exists s', next_iter false false (mkS hcoll (Some 2%Z) false false None None None) [ev2; ev3; ev4]
+  exists s', next_iter false false (mkS hcoll 2 false false None None None) [ev2; ev3; ev4] ts_zero
              = (s', Return (Event ev3)) /\ drops hcoll ev3 = true.
 Proof. eexists; split; reflexivity. Qed.
 
+Local Open Scope nat_scope.
+
 (* concurrent: the window between the consumer's unlock and its select *)
-Definition c_ex0 : cstate := cinit [ev0] st_after0 [([ev1], 0)].
+Definition c_ex0 : cstate := cinit [ev0] ts_zero st_after0 [([ev1], 0)].
 
 (* check finds nothing -> (unlock) -> commit publishes -> consumer is parked
    with a matching event ahead and an empty buffer: the committer's send is pending *)
@@ -1565,13 +1610,20 @@ Lemma ex_window :
             committer_about_to_signal s.
 Proof.
   eexists; split; [vm_compute; reflexivity|]. unfold consumer_waiting, undelivered_matching, committer_about_to_signal.
-  simpl. repeat split; auto. exists ev1, [ev1]. repeat split; auto. left; reflexivity.
+  simpl. repeat split; auto. exists ev1. split; [left; reflexivity|reflexivity].
 Qed.
 
 (* ... the send fills the buffer, the select fires, the next pass delivers *)
 Lemma ex_wakeup :
   exists s, crun [LCall true; LCheck; LPublish 0; LSignal 0; LWake; LCheck] c_ex0 = Some s /\
             c_cons s = CDone (Event ev1) /\ c_sig s = false.
+Proof. eexists; split; [vm_compute; reflexivity|]. split; reflexivity. Qed.
+
+(* a parked consumer that retention passes is woken by that commit and gets Lost *)
+Lemma ex_trim_wakes :
+  exists s, crun [LCall true; LCheck; LPublish 0; LSignal 0; LWake; LCheck]
+                 (cinit [ev0] ts_zero st_after0 [([ev1; ev2], 2)]) = Some s /\
+            c_cons s = CDone Lost /\ c_trimmed s = 1%Z.
 Proof. eexists; split; [vm_compute; reflexivity|]. split; reflexivity. Qed.
 
 (* the signal arrives BEFORE the consumer reaches the select: it is buffered *)
@@ -1601,6 +1653,6 @@ Lemma ex_window_reachable :
   exists s, initial c_ex0 /\ reachable c_ex0 s /\ consumer_waiting s /\ undelivered_matching s.
 Proof.
   destruct ex_window as (s & H & W & U & _).
-  exists s. split; [eexists _, _, _; reflexivity|]. split; [|auto].
+  exists s. split; [eexists _, _, _, _; reflexivity|]. split; [|auto].
   eapply reachable_crun; [exact H|constructor].
 Qed.
